@@ -12,1512 +12,1499 @@ Definition show_fres (r : fres) : string :=
   end.
 Definition check (rs : list rune) : string := digest (show_fres (format_res rs)).
 Definition full (rs : list rune) : string := show_fres (format_res rs).
-Eval vm_compute in ("<<<M487>>>" ++ check (runes_of_ascii "packet// " ++ [27880; 37322]%N ++ runes_of_ascii "
-len{ // a // b
-match // trailing space 
-Pad as x_y_z {""abc"" :	float, [ ""CRC32""
-    ,""CRC32""
-,0 , """ ++ [233]%N ++ runes_of_ascii "t" ++ [233]%N ++ runes_of_ascii """
-    , 255
-// packet A { u8 x, }
-//x
-,
-255 , //x
-""`tick`"" , """ ++ [233]%N ++ runes_of_ascii "t" ++ [233]%N ++ runes_of_ascii """ ] : A	, 0123456789 : // trailing space 
-rootA ,	""a\""b""  :
-trueish
-    ,
-    }
-, repeat  int `{ , }` ,@lengthOf( trueish
-)	roots @lengthOf( body)	, float32 lengthOf// a // b
-,
-@rightPad  ( ' ')	repeatCount @lengthOf( calculatedFrom)
-`line1
-line2` , uint64 string_  @calculatedFrom(""x y"" ) , // @lengthOf(
-Header _x`two words` ,
-i64 roots  `
-`
-    , } // a // b
-options {repeatCount = // " ++ [27880; 37322]%N ++ runes_of_ascii "
-false
-// @lengthOf(
-//	t
-; MetaDataX = int16 }root packet As// packet A { u8 x, }
-{
-    @rightPad // trailing space 
-(
-'0' ) uint32 BodyLength `u8 x,` ,stringy
-//	t
-//
-`crlf
-line` ,
-int64 body `a\`
-, uint32 u128
-,
-@tag(	255
-// packet A { u8 x, }
-// @lengthOf(
-) zchar[ 7 ]	pack `line1
-line2` ,
-@rightPad( '\x00' )
-    repeat MetaDataX { x_y_z
-    { repeat _x { zchar //
-rootA  `
-` ,
-    // " ++ [128512]%N ++ runes_of_ascii " emoji
-    }
-    /// triple
-    , repeat string_ {
+Eval vm_compute in ("<<<M902>>>" ++ check (runes_of_ascii "root packet charz {repeat o
 // a // b
-// packet A { u8 x, }
-zchar[0123456789
-] lengthOf	,
-    }
-    , u128
-    asx `
-` , match chars as i64_
-{ ""`tick`"" ://	t
-int ,
-[  ""a\\"" ,1 ]  :x 7 : x_y_z //x
-,""" ++ [233]%N ++ runes_of_ascii "t" ++ [233]%N ++ runes_of_ascii """ : string_, [ 42	,""1""
-    ,	""x y"" ,""`tick`""
-    ] : options1 ,}  ,} ,
-msg_type  @calculatedFrom( ""a\""b""  )// " ++ [128512]%N ++ runes_of_ascii " emoji
-,char[ 4294967296
-] asx `" ++ [28040; 24687; 31867; 22411]%N ++ runes_of_ascii "`//
-, match _x
-as i8i8 { [	""x y"" // @lengthOf(
-]
-    : charz , 4294967296
-    : x_y_z,} ,  }// " ++ [128512]%N ++ runes_of_ascii " emoji
-,@calculatedFrom( ""CRC32"" ) As
-_x , @rightPad ('\x00' ) //	t
-@tag(0123456789 ) @calculatedFrom( ""it's"")
-    zchar[3 ]
-f32a`doc` , } // @lengthOf(
-MetaData	u {rootA //
-len `
-`
-,
-}	packet Packet // trailing space 
-{ @lengthOf(	len
-)repeat
-    u64 body  ,
-    repeat
-    leftPad i64_ , // c
-@lengthOf( zchar ) i16 x
-,
-    // trailing space 
-    BodyLength // packet A { u8 x, }
-{ repeat packetx tag, }
-    //
-    ,
-    char[
-    3 ]Logon
-    @calculatedFrom( ""{,}"" // @lengthOf(
-) , @tag(  0
-)match tag as int { 0123456789 :	float , }
-    , match trueish as// c
-Logon
-{ //	t
-""`tick`"" :As
-    ,}	, char[ 00]Header, }
-")).
-Eval vm_compute in ("<<<M1153>>>" ++ check (runes_of_ascii "
-root packet
-a1 { repeat zchar int ,
-string u ,
-string u8x @lengthOf( msg_type ) , rootA `it's`
-, @tag(
-    255 ) //x
-uint16 packetx
-    @lengthOf( Z9_ ) `it's` ,
-@leftPad( '\x00')  uint8
-zchar , @tag( 007 ) @tag(// trailing space 
-4294967296 )
-trueish	@lengthOf( i64_ )
-,  uint8 repeatCount`crlf
-line` , string
-metadata ,
-    match  len as
-    metadata {0	: Packet,
-    } , } packet As { repeat i8
-T ,
-    pack , @lengthOf( stringy
-) char[0	]
-Pad , repeat char[ 0 ]
-tag ,
-    @lengthOf(roots)uint16
-    // a // b
-    string_// " ++ [128512]%N ++ runes_of_ascii " emoji
-@lengthOf(
-    // a // b
-    zchar ) `{ , }` ,
-@lengthOf(a1 // " ++ [128512]%N ++ runes_of_ascii " emoji
-) repeat x_y_z
-    { int8
-f32a, packetx{match Header	as Packet
-{  [
-// @lengthOf(
 // trailing space 
-""it's""] :
-uint8x
-    1 : u128
-    ,
-""\" ++ [233]%N ++ runes_of_ascii """
-:MetaDataX
-, [""a\\"" ,	1, ""x y""] : f32a ,
-    65535 : BodyLength
-, }
-    ,
-msg_type @calculatedFrom( ""abc""
-    )
-    //
-    `// not a comment` , match chars as
-Header {
-7:x_y_z, 10
-    : matchKey /// triple
-,
-""x y""
-: // " ++ [128512]%N ++ runes_of_ascii " emoji
-x_y_z ,007	: float , }
-, // a // b
-uint8x u , },	repeat Foo { //	t
-repeat float64 chars , //x
-match
-    len
-//
-//x
-as Pad { [ ""\" ++ [233]%N ++ runes_of_ascii """ , 1 ] :
-    u8x  ,
-10:i64_	[  ""CRC32""  ] : Logon
-    ,[""CRC32"" ,  255
-    ]  :
-u8x , }
-,
-} ,
-    } ,
-@lengthOf( Packet ) @leftPad (	'0'
-) @rightPad
-    // c
-    (
-) zchar[3
-]uint8x//
-,	match int as pack {
-    // " ++ [128512]%N ++ runes_of_ascii " emoji
-    [ 3 ] :
-string_  ""a\""b"" : repeatCount ,
-    007 :	zchar} ,repeat uint8 lengthOf`// not a comment` , } options { Logon = ""packet""
-// @lengthOf(
-// `tick` ""quote"" 'q'
-rootA=//	t
-true
-    packetx = false f32a =  ""a\\"" }
-    root packet
-u {  repeat char[] body , //
-@calculatedFrom( ""a\""b"" )
-    @lengthOf( Foo ) A
-@calculatedFrom( ""{,}"" ) , } options
-{ trueish = 0 charz= ""abc"" }")).
-Eval vm_compute in ("<<<M156>>>" ++ check (runes_of_ascii "packet  zchar
-    { char[]  string_ ,
-    // @lengthOf(
-    msg_type , match
-    roots // " ++ [27880; 37322]%N ++ runes_of_ascii "
-as metadata { 3: Logon
-, [""a\\"",""1"" , 3 ,
-00
-    , ""a\\"" ,7, 65535 , 3 ]
-    :x_y_z
-    , 0123456789 : o , ""\" ++ [233]%N ++ runes_of_ascii """ : x ""CRC32"" :
-Foo,
-    }, char Header`u8 x,` ,
-    } //	t
-options	{
-    } packet
-    //	t
-    As{zchar[
-    // @lengthOf(
-    10	] roots ,
-    char[7 ]
-calculatedFrom //
-@lengthOf( body ), char stringy	@lengthOf(metadata /// triple
-) ,
-Pad // trailing space 
-u128 , @calculatedFrom( ""it's"") Z9_ ,  match
-falsey	as /// triple
-MetaDataX
-    { 4294967296 : float,//x
-3 :
-    Pad 1
-:T,} /// triple
-,
-    @tag(
-3 ) char[]
-A @calculatedFrom( ""it's""
-) ,  o tag ,
-@lengthOf( x // packet A { u8 x, }
-) zchar[ 4294967296
-    ]
-    rootA // @lengthOf(
-`
-` , } root packet Logon {	repeat _x {leftPad  `crlf
-line` ,
-}
-    , repeat i8 Packet  , MetaDataX`// not a comment`// " ++ [27880; 37322]%N ++ runes_of_ascii "
-, asx`two words` ,
-repeat lengthOf tag , @calculatedFrom( // `tick` ""quote"" 'q'
-""CRC32"" ) // @lengthOf(
-match repeatCount// packet A { u8 x, }
-as
-BodyLength { """ ++ [128512]%N ++ runes_of_ascii """ : len
-[
-    255
-, ""a\\"", 0123456789 , ""CRC32"", // " ++ [128512]%N ++ runes_of_ascii " emoji
-7, 42
-    // a // b
-    ]
-: repeatCount
-,
-},
-i64_ msg_type `crlf
-line` , }
-packet repeatCount{
-    @calculatedFrom(
-""a\""b"" )
-    match
-a1 as
-    matchKey// packet A { u8 x, }
-{00 : options1,
-    4294967296
-    : x_y_z , [3 ,
-""a	b"" ,0123456789
-] : i64_ ,
-0 : leftPad ,""`tick`"" :int [""" ++ [28040; 24687]%N ++ runes_of_ascii """ // @lengthOf(
-]
-// trailing space 
-/// triple
-: Z9_, }
-    , }
-")).
-Eval vm_compute in ("<<<M1213>>>" ++ check (runes_of_ascii "packet
-u8x { int8 T,	string
-    msg_type
-@lengthOf(
-    o )
-    , uint64
-pack `tab	here` , chars len  , @lengthOf( u8x )  repeat Packet _x `crlf
-line` // `tick` ""quote"" 'q'
-,@tag(255 ) @tag( 4294967296 ) @rightPad( )	match// c
-metadata
-as pack { // a // b
-""a\""b"" : a1
-// `tick` ""quote"" 'q'
-// " ++ [27880; 37322]%N ++ runes_of_ascii "
-,
-    } ,
-    a1 {match  Foo as trueish { [""a\""b"", ""a\""b""
-] : x
-"""" :
-    tag ,// c
-""1"" :
-Foo ,
-[
-4294967296
-,""`tick`"",65535 , 65535 , 10 ]	:
-_x // " ++ [27880; 37322]%N ++ runes_of_ascii "
-}
-,} ,
-    match	options1 as T{ [
-    3 ] : Z9_//x
-,	[ ""abc""]// trailing space 
-:lengthOf, } ,// c
-leftPad
-`a\`// " ++ [27880; 37322]%N ++ runes_of_ascii "
-,	} packet Packet {
-repeat float64
-    u8x `doc` , match metadata as int{ [ //
-4294967296
-    , // `tick` ""quote"" 'q'
-0123456789 , 007,
-""" ++ [128512]%N ++ runes_of_ascii """ ,
-""1""] : x_y_z
-    ,
-    7
-    :
-int
-    ,  007 :len""" ++ [28040; 24687]%N ++ runes_of_ascii """: string_ ,
-} ,repeat	zchar[ 3 ]  pack `u8 x,`,@leftPad ('0'
-)	char[ 007 ] x_y_z , zchar[ 10 ]u @lengthOf(
-x
-), repeat metadata//
-`" ++ [28040; 24687; 31867; 22411]%N ++ runes_of_ascii "`  , options1
-    { body
-    @calculatedFrom(
-// c
-//	t
-""abc""  )
-    `
-` , string crc  , char[	007	] A , }	,
-@calculatedFrom( ""{,}"" ) @calculatedFrom(
-    ""CRC32"") char[] Foo
-`line1
-line2`, @calculatedFrom( ""`tick`"" ) @rightPad
-( '\x00' ) @tag(
-// `tick` ""quote"" 'q'
-// packet A { u8 x, }
-10
-) zchar[ 007  ] float, // a // b
-repeat
-    zchar[ 10
-]Z9_
-,
-    // " ++ [128512]%N ++ runes_of_ascii " emoji
-    }
-
-")).
-Eval vm_compute in ("<<<M255>>>" ++ check (runes_of_ascii "/// triple
-MetaData Logon
-    {i16 body
-, } /// triple
-root packet
-Z9_ {	_x
-// packet A { u8 x, }
-// " ++ [128512]%N ++ runes_of_ascii " emoji
-{
-Foo {
-    matchKey { repeat
-    leftPad body ,
-    u128 MetaDataX ,
-    match uint8x as BodyLength{ ""abc"": int , [42
-    ,
-    10
-    ]: Z9_ , 1 :// a // b
-i64_ 0123456789 :
-u ,  ""a\""b""
-: chars , }
-    ,
-repeat //	t
-int32
-//x
-//	t
-packetx
-    , } ,  match zchar as u128
-    // @lengthOf(
-    { 007 //x
-: msg_type	""a\\"" : asx, """":T
-, 007 : charz, ""abc"":
-    /// triple
-    matchKey , ""x y"":  string_ ,
-}
-, repeat  zchar[
-0123456789 ]// trailing space 
-msg_type `doc` ,}, match Z9_ as MetaDataX
-{	[ 0 , ""1""
-    ]:
-    // packet A { u8 x, }
-    uint8x [ 65535 ,
-//
-//	t
-""""] :
-    x_y_z
-,""x y"": falsey ,
-65535
-:
-packetx, ""// no comment"": falsey [ 4294967296 , ""a\""b"" ,
-    ""\n"" , ""a\""b""	,
-    255 ]: charz	, } // @lengthOf(
-,
-}
-,
-    chars
-    int `u8 x,`
-    , @tag(65535)
-char[] Header `{ , }` , @tag(
-    255
-) match	repeatCount as
-    A { [4294967296 ,""\" ++ [233]%N ++ runes_of_ascii """ , ""packet"" , // packet A { u8 x, }
-42 ,
-007 , """ ++ [128512]%N ++ runes_of_ascii """, ""a\""b"" ]// c
-:
-    lengthOf , ""// no comment""
-:
-a1 ,""\n"" : MetaDataX//x
-3 // a // b
-:
-// @lengthOf(
-// packet A { u8 x, }
-body	, } , }
-")).
-Eval vm_compute in ("<<<M3779>>>" ++ check (runes_of_ascii "packet As {
-}
-
-MetaData BodyLength {
-    uint32 Z9_ `// not a comment`,
-}
-
-packet f32a {
-    f64 T @lengthOf(As) `u8 x,`,
-    repeat i16 i64_ `" ++ [28040; 24687; 31867; 22411]%N ++ runes_of_ascii "`,
-    char[007] falsey @lengthOf(Pad),
-    repeat leftPad {
-        u64 u8x,
-        char[] tag,
-    },
-    match As as len {
-        ""1"" : x_y_z,
-        255 : len,
-        007 : charz,
-        [
-            42, 10, 3, ""abc"", """ ++ [28040; 24687]%N ++ runes_of_ascii """,
-            ""it's""
-        ] : matchKey,
-    },// @lengthOf(
-}
-
-packet BodyLength {
-    @calculatedFrom(""// no comment"")
-    @lengthOf(Logon)
-    @tag(42)
-    //
-    // " ++ [128512]%N ++ runes_of_ascii " emoji
-    repeat rootA metadata,
-    @tag(4294967296)
-    repeat matchKey {
-        int8 pack,
-    },
-    @tag(65535)
-    @rightPad()
-    @lengthOf(Pad)
-    uint8x `{ , }`,
-    match Foo as As {
-        10 : uint8x,
-        0 : rootA,
-        007 : matchKey,
-        [""x y""] : u8x,
-    },
-    float64 i64_ @calculatedFrom(""// no comment""),
-    match trueish as matchKey {
-        // trailing space 
-        // trailing space 
-        """ ++ [233]%N ++ runes_of_ascii "t" ++ [233]%N ++ runes_of_ascii """ : _x,
-    },
-    chars @lengthOf(Packet) `crlf
-        line`,
-    char[] x,
-}
-
-MetaData falsey {
-    Z9_ options1 ``,
-}")).
-Eval vm_compute in ("<<<M607>>>" ++ check (runes_of_ascii "packet
-Header
-// " ++ [27880; 37322]%N ++ runes_of_ascii "
-// a // b
-{
-    msg_type@lengthOf( leftPad// @lengthOf(
-) , @calculatedFrom( ""x y""
-) int16 A @calculatedFrom( """ ++ [233]%N ++ runes_of_ascii "t" ++ [233]%N ++ runes_of_ascii """ ) , @calculatedFrom( ""packet"") metadata@lengthOf( leftPad
-    )
-,
-match len  as pack {	7/// triple
-:a1
-    , 10: uint8x
-    ,""`tick`""// `tick` ""quote"" 'q'
-: // c
-options1 00
-: repeatCount , } ,
-@rightPad ( '\x00')//	t
-@tag(	10 ) @tag(
-7 // @lengthOf(
-)repeat char[ 42 ]	As`two words` , @tag( 65535 )
-    zchar
-// a // b
-// " ++ [27880; 37322]%N ++ runes_of_ascii "
-@lengthOf(
-    // packet A { u8 x, }
-    body
-)
-    `" ++ [28040; 24687; 31867; 22411]%N ++ runes_of_ascii "` , @tag(255 ) // packet A { u8 x, }
-repeat// " ++ [128512]%N ++ runes_of_ascii " emoji
 Packet
-    { repeat
-    char
-    falsey
-`two words`
-, repeat T {
-char[]chars ,repeat f32a {
-    // packet A { u8 x, }
-    repeat char[] falsey `tab	here` , } ,
-    } , match u8x as pack { [ ""{,}""
-,
-""\" ++ [233]%N ++ runes_of_ascii """
+,} packet	float
+{ match
+crc
+as
+    /// triple
+    body{""\" ++ [233]%N ++ runes_of_ascii """ :f32a 4294967296 :len
+    [ ""// no comment""
+    //x
+    ]
+: lengthOf, 65535 : // c
+i64_ ,
+//x
+//
+4294967296 : Pad,} , Logon // trailing space 
+, float64 body	@lengthOf( leftPad )
+`say ""hi""`
+    , match u8x as repeatCount{
+    // @lengthOf(
+    """ ++ [128512]%N ++ runes_of_ascii """ :
+i8i8
     ,
-// trailing space 
-// c
-""a	b"" ,
-    ""\n""
-,1] // " ++ [128512]%N ++ runes_of_ascii " emoji
+    ""\n"":tag , 7:pack , """ ++ [28040; 24687]%N ++ runes_of_ascii """
+//	t
+// " ++ [27880; 37322]%N ++ runes_of_ascii "
+: calculatedFrom, /// triple
+[
+    0 ,""it's""	]
 :
-int
-    ""x y"" :
-    A
-,
-""CRC32"" : leftPad
-, }
-    , //x
-f32a x //
-,} ,  }
-packet charz {  repeat lengthOf
-lengthOf , }
-options{ body =
-true;
-metadata = 4294967296 ; len= uint32 ;	} // @lengthOf(")).
-Eval vm_compute in ("<<<M3609>>>" ++ check (runes_of_ascii "  // " ++ [128512]%N ++ runes_of_ascii " emoji
-    options	{
-    }	// a // b
-    	packet 	 /// triple
-    a1 { 
-char[ 10] 
-    //	t
-	// " ++ [128512]%N ++ runes_of_ascii " emoji
-  msg_type@calculatedFrom(
-
-    ""packet""  )
-`u8 x,`
-
-, crc
-{
-    float x	,
-
-    repeat 
-i32
-MetaDataX ,	} ,
-	@calculatedFrom(
-    ""// no comment""	)  //x
-repeat 
-float matchKey
-	`" ++ [233]%N ++ runes_of_ascii "`
-
-,  // `tick` ""quote"" 'q'
-match
-
-lengthOf
-	as
-
-asx {[ 
-//x
-  1,
-
-    1  ]	:
-
-x_y_z,  }
-    ,@lengthOf(
-tag
-    )
-    repeat
-
-f32 	 //x
-  A
-`tab	here`
-,
-@calculatedFrom(
-	""x y""
-
-    )match
-
-u128
-    as
-
-rootA
-{
-	3 :
-
-pack  ,
-
-    [ ""CRC32""
-, ""1""	,
-""CRC32"" ,
-	7
-	, ""`tick`"",
-""a\\"" ,
-	""{,}""	, 
-65535 ]
-    : repeatCount ,3: f32a ,  007
-
-    :falsey ""// no comment"" 
-:Header	00
-
-    : Foo 
-,
-}
-    ,
-
-    repeat	string
-falsey
-
-,
-	@lengthOf(
-    string_
-
-) 	 // a // b
-	stringy  , @rightPad
-(
-) 
-@rightPad
-	(	// c
-  ' '	)	@leftPad 
-	// `tick` ""quote"" 'q'
-	  // " ++ [128512]%N ++ runes_of_ascii " emoji
-  (
-
-    )
-repeatCount,  @rightPad 
-(
-    )// " ++ [27880; 37322]%N ++ runes_of_ascii "
-
-repeat
-trueish
-
-    ,
-    }
-	    // c
- 
-")).
-Eval vm_compute in ("<<<M832>>>" ++ check (runes_of_ascii "MetaData  rootA
-    //	t
-    {
-} // " ++ [27880; 37322]%N ++ runes_of_ascii "
-packet	tag {repeat
-    lengthOf i8i8
-    `a\` // @lengthOf(
-,	@leftPad ('0') @rightPad
-    ( '\x00' )  match
-    chars as trueish
-    { ""it's""
-    : As
-, ""x y"": u //	t
-,
-//x
+    int } // c
+,char[0] stringy
+, repeat float32 trueish  `u8 x,`,char[]	T , } packet  calculatedFrom //	t
+{ matchKey	matchKey,@leftPad
 /// triple
-42
-    // trailing space 
-    :chars
-,7: float ,
-255 : Foo ,
-    } , @calculatedFrom(""packet""
-/// triple
-// @lengthOf(
-) match u128 as tag {	00 :  packetx
-    ,255 : uint8x , [ ""{,}"" , """ ++ [128512]%N ++ runes_of_ascii """ ,// @lengthOf(
+// `tick` ""quote"" 'q'
+(
+)msg_type, int16 // packet A { u8 x, }
+BodyLength `" ++ [233]%N ++ runes_of_ascii "` , char[
+    /// triple
+    255] /// triple
+packetx , @calculatedFrom( ""x y"" ) match
+    Packet as
+    uint8x // c
+{ ""\n"": repeatCount ,
+    [
+// packet A { u8 x, }
+// packet A { u8 x, }
+65535 ] : leftPad ,
+    ""\n"" :
+trueish,[""" ++ [233]%N ++ runes_of_ascii "t" ++ [233]%N ++ runes_of_ascii """
+,
+    1 // " ++ [27880; 37322]%N ++ runes_of_ascii "
+, ""abc""	,
+10]:f32a // " ++ [27880; 37322]%N ++ runes_of_ascii "
+[ ""// no comment"" ] : u// @lengthOf(
 65535
-, 10, // " ++ [27880; 37322]%N ++ runes_of_ascii "
-7,
-""packet"", // c
-255 ,
-    ""a\""b"" ] : o ,  0 : //
-x_y_z
-,
-    } // `tick` ""quote"" 'q'
-,
-@tag( // " ++ [128512]%N ++ runes_of_ascii " emoji
-0123456789 ) u { match pack as _x{
-[  007 ,0123456789
-] : charz , } ,
-    char[
-    42 ] u
-    // " ++ [128512]%N ++ runes_of_ascii " emoji
-    , } ,
-    int8 trueish ,@lengthOf( a1) x // trailing space 
-@calculatedFrom( ""\" ++ [233]%N ++ runes_of_ascii """ ) , @rightPad ( '0' )
-    Packet Z9_,  @leftPad ('\x00' ) falsey
-    { char[] msg_type	,
-} ,}
-root packet len {  options1 {
-    uint16 As @lengthOf( //x
-zchar ) `it's`
-    , },
+: matchKey , } , match _x as float{ ""x y"": len  , } ,
+    char a1// c
+@lengthOf( i64_
+)	,_x @calculatedFrom(""\n"")
+`// not a comment`  , repeat calculatedFrom{ zchar[ 1] // " ++ [128512]%N ++ runes_of_ascii " emoji
+Foo , char[	7] options1 `tab	here`
+, //
+match
+    chars as A
+    { 4294967296 : string_
+    , } , u8x	@calculatedFrom(""`tick`""
+)
+, }
+    ,
+} packet calculatedFrom  {
+    @lengthOf(tag ) @leftPad(
+    //x
+    '\x00'
+    // " ++ [27880; 37322]%N ++ runes_of_ascii "
+    ) @rightPad
+    (
+'0')char[ 0123456789
+] u128 , rootA
+{zchar[ // a // b
+4294967296  ]
+//	t
+// a // b
+_x// a // b
+@lengthOf(
+    metadata // trailing space 
+) ,
+    } ,	Header u , @calculatedFrom(""it's"" )
+// @lengthOf(
+// trailing space 
+Pad @calculatedFrom( ""abc"" ) , @lengthOf(
+u
+) @lengthOf( len)
+    @rightPad	( ) // trailing space 
+int64 uint8x `// not a comment` , } root packet roots { u@lengthOf( i8i8 ) , @calculatedFrom(""\" ++ [233]%N ++ runes_of_ascii """)
+    BodyLength
+Logon, uint16 body @lengthOf(
+f32a )	`a\`, int16 // a // b
+zchar , @calculatedFrom(""a	b"" ) u32 u128 // @lengthOf(
+`
+` ,
+    Pad T //	t
+`
+`,
     }")).
-Eval vm_compute in ("<<<M3573>>>" ++ check (runes_of_ascii "options {
-    LittleEndian = true;
-    StringPrefixLenType = u32;
-    FixedStringPadChar = '0';
+Eval vm_compute in ("<<<M3541>>>" ++ check (runes_of_ascii "// top
+options // c0a
+  // c0b
+{ LittleEndian // c2a
+  // c2b
+= // c3a
+  // c3b
+true // c4a
+  // c4b
+; // c5a
+  // c5b
+FixedStringPadFromLeft // c6
+= // c7
+true // c8
+; // c9
+FixedStringPadChar // c10a
+  // c10b
+= // c11
+'0' // c12a
+  // c12b
+; // c13
+} // c14
+packet // c15
+Trade // c16a
+  // c16b
+{ string
+    // c18
+clOrdID
+    // c19
+, // c20
+char[]
+    // c21
+Px // c22a
+  // c22b
+, // c23
+u32 // c24a
+  // c24b
+x // c25a
+  // c25b
+, } // c27
+packet // c28
+Reject // c29
+{
+    // c30
+int32 // c31
+Side2
+    // c32
+,
+    // c33
+repeat char[ // c35a
+  // c35b
+3 ]
+    // c37
+clOrdID // c38a
+  // c38b
+,
+    // c39
+i32
+    // c40
+tag7
+    // c41
+, // c42a
+  // c42b
+}
+    // c43
+packet // c44a
+  // c44b
+Leg // c45a
+  // c45b
+{
+    // c46
+} // c47
+root // c48
+packet // c49
+Quote // c50a
+  // c50b
+{ // c51a
+  // c51b
+string // c52
+Side2 , string // c55
+lastPx
+    // c56
+, InSym58 // c58a
+  // c58b
+{ // c59a
+  // c59b
+int16
+    // c60
+OrderId // c61a
+  // c61b
+, Reject ,
+    // c64
+i8 Qty
+    // c66
+,
+    // c67
+i64 // c68a
+  // c68b
+venue
+    // c69
+, // c70
+f32
+    // c71
+Note
+    // c72
+, // c73
+} // c74a
+  // c74b
+,
+    // c75
+char[] // c76a
+  // c76b
+count
+    // c77
+, // c78
+zchar[ // c79a
+  // c79b
+9
+    // c80
+] // c81a
+  // c81b
+price
+    // c82
+, // c83
+u16 Qty // c85
+, // c86a
+  // c86b
+match // c87
+Qty
+    // c88
+as Body
+    // c90
+{
+    // c91
+69 // c92a
+  // c92b
+: Leg
+    // c94
+, // c95
+48 // c96a
+  // c96b
+: // c97
+Trade // c98
+, // c99a
+  // c99b
+51 // c100a
+  // c100b
+: Reject // c102
+, } , // c105
+u16 // c106
+Acct
+    // c107
+@calculatedFrom(
+    // c108
+""CRC32"" // c109a
+  // c109b
+)
+    // c110
+, } ")).
+Eval vm_compute in ("<<<M3715>>>" ++ check (runes_of_ascii "options {
+    uint8x = u64;
+    crc = '0'
+    // @lengthOf(
+    // " ++ [128512]%N ++ runes_of_ascii " emoji
+    MetaDataX = '0';
+    len = '0'
 }
 
-packet Logout {
-    repeat InMsgkind49 {
-        u8 pad0,
+MetaData matchKey {
+    /// triple
+}
+
+packet i64_ {
+    BodyLength `tab	here`,
+    @tag(00)
+    repeat string_,
+    @calculatedFrom(""" ++ [28040; 24687]%N ++ runes_of_ascii """)
+    @leftPad('0')
+    crc @calculatedFrom(""" ++ [233]%N ++ runes_of_ascii "t" ++ [233]%N ++ runes_of_ascii """),
+    @tag(1)
+    zchar[007] packetx `
+    `,
+    @leftPad('0')
+    x @calculatedFrom(""packet""),
+    @lengthOf(A)
+    /// triple
+    @calculatedFrom(""{,}"")
+    @rightPad('0')
+    string Header `say ""hi""`,
+    @lengthOf(u8x)
+    x Header `doc`,
+}
+
+packet uint8x {
+    @leftPad('\x00')
+    @lengthOf(leftPad)
+    BodyLength u,
+}
+
+root packet A {
+    @rightPad('\x00')
+    @lengthOf(leftPad)
+    char[4294967296] A @calculatedFrom(""// no comment""),
+    @tag(42)
+    @calculatedFrom(""packet"")
+    @calculatedFrom(""" ++ [128512]%N ++ runes_of_ascii """)
+    repeat Z9_ `" ++ [28040; 24687; 31867; 22411]%N ++ runes_of_ascii "`,
+    rootA crc,
+    Header,
+    char[4294967296] charz `{ , }`,
+    @calculatedFrom(""\n"")
+    @calculatedFrom(""it's"")
+    u64 stringy `" ++ [233]%N ++ runes_of_ascii "`,
+    repeat options1 {
+        body {
+            lengthOf @calculatedFrom(""a\\""),
+            options1 {
+                repeat chars leftPad `two words`,
+                // " ++ [27880; 37322]%N ++ runes_of_ascii "
+                // " ++ [27880; 37322]%N ++ runes_of_ascii "
+            },
+        },
+        repeat char[] _x,
+        zchar[3] options1,
     },
-    repeat char[5] seqNo,
-    repeat u8 price,
+    @lengthOf(packetx)
+    @leftPad(' ')
+    @lengthOf(rootA)
+    float Packet,
+    @tag(7)
+    repeat u8 matchKey,
+}
+//	t")).
+Eval vm_compute in ("<<<M558>>>" ++ check (runes_of_ascii "// " ++ [27880; 37322]%N ++ runes_of_ascii "
+packet int {
+@tag( // a // b
+0)@rightPad ('0')@calculatedFrom(
+""CRC32"" ) zchar[ 10 ]
+    //x
+    float ,
+    char[
+1 // " ++ [27880; 37322]%N ++ runes_of_ascii "
+]float `
+`, int8
+i64_ @lengthOf( // packet A { u8 x, }
+u128 )
+    `{ , }` ,  uint32 rootA , float32 _x , u8 T `` , MetaDataX
+x
+    `it's` , char[] calculatedFrom , // @lengthOf(
+uint64
+    // a // b
+    i8i8`// not a comment`	,
+    } MetaData lengthOf {
+// trailing space 
+// `tick` ""quote"" 'q'
+leftPad leftPad ,u32 a1 `it's` , Pad Packet ,//	t
+uint8x leftPad,  falsey roots`// not a comment`
+    , }
+packet A { calculatedFrom @calculatedFrom( ""CRC32"" ) `` ,repeat matchKey {
+    string
+chars`two words` , // trailing space 
+stringy @calculatedFrom( //	t
+""1""),
+// @lengthOf(
+// " ++ [128512]%N ++ runes_of_ascii " emoji
+} // c
+, // packet A { u8 x, }
+match trueish as float
+/// triple
+// " ++ [27880; 37322]%N ++ runes_of_ascii "
+{  3:int /// triple
+[
+    // trailing space 
+    """ ++ [233]%N ++ runes_of_ascii "t" ++ [233]%N ++ runes_of_ascii """  ,	""\n"" ]: Logon// @lengthOf(
+, 7: metadata ,
+007 :
+    //
+    u, },  @lengthOf(  body )char[]Logon //
+`tab	here` , // trailing space 
+@calculatedFrom( ""\" ++ [233]%N ++ runes_of_ascii """ )  charz// c
+@lengthOf( i64_  ), repeat  i64 f32a
+    ,repeat
+u32	Foo `
+` , @calculatedFrom(""1"" )
+    repeat int	{repeat trueish
+{ // trailing space 
+repeat f64 Foo ,  },
+} ,// c
+char[]	matchKey @lengthOf(
+x_y_z) , @rightPad
+    ( ) repeat int64
+As //	t
+,}
+")).
+Eval vm_compute in ("<<<M213>>>" ++ check (runes_of_ascii "packet a1
+{
+@lengthOf(	f32a	) repeat u64	string_
+    ,
+    @calculatedFrom( """"
+    ) repeat	i16 tag `u8 x,` , @tag( 42 ) @calculatedFrom(	""a\\"")  @calculatedFrom( ""\" ++ [233]%N ++ runes_of_ascii """
+) zchar[ 10
+] Foo , char[42
+    //	t
+    ]
+    body `// not a comment` , }MetaData roots{ uint64
+Z9_ `{ , }`,
+char[]charz `doc` , uint16 u128 `u8 x,` , zchar[ 4294967296 // trailing space 
+]
+    len
+,
+float32
+stringy
+,
+} packet
+Z9_	{ @leftPad ('\x00')
+    @tag(42 ) @tag( 7)
+    roots x
+    , @lengthOf( int ) crc zchar
+//	t
+//
+, } packet string_ { u8 Pad
+// c
+// " ++ [128512]%N ++ runes_of_ascii " emoji
+, u64 chars
+,
+    @lengthOf(	Logon
+)
+    pack
+,
+@leftPad (
+    ) @rightPad//
+(
+    ' '	)@calculatedFrom(""a	b"")
+    i8 x `crlf
+line`
+    , char[ 0123456789 // @lengthOf(
+]options1 @calculatedFrom( ""{,}"" )
+`two words` ,uint64 charz `doc` , char[] u128
+// packet A { u8 x, }
+//	t
+,
+    @calculatedFrom( ""1"" ) repeat matchKey
+    {
+repeat int o// c
+, } ,
+@lengthOf(calculatedFrom
+    )@rightPad ( '\x00')
+@tag( 00 )
+MetaDataX { uint32 BodyLength, } ,
+// trailing space 
+//
+} packet lengthOf {  @calculatedFrom(	""" ++ [28040; 24687]%N ++ runes_of_ascii """
+    )
+// trailing space 
+// " ++ [27880; 37322]%N ++ runes_of_ascii "
+repeat	repeatCount { repeat char[ 7]	pack `// not a comment`, }
+, }
+")).
+Eval vm_compute in ("<<<M1406>>>" ++ check (runes_of_ascii "options {
+	StringPrefixLenType = u16;
+	ArrayPrefixLenType = u16;
 }
 
-packet Party {
-    zchar[7] Qty,
+packet SampleBinary {
+	uint16 MsgType `" ++ [28040; 24687; 31867; 22411]%N ++ runes_of_ascii "`,
+	u16 BodyLenght @lengthOf(Body) `" ++ [28040; 24687; 20307; 38271; 24230]%N ++ runes_of_ascii "`,
+	match MsgType as Body {
+		1 : Logon,
+		2 : Logout,
+		3 : Heartbeat,
+		4 : RiskControlRequest,
+		5 : RiskControlResponse,
+	},
+	@calculatedFrom(""CRC32"")
+	u32 Ckecksum `" ++ [26657; 39564; 21644]%N ++ runes_of_ascii "`,
 }
 
 packet Logon {
-    repeat InRef10 {
-        string price,
-        char[] sym,
-        repeat Logout,
-    },
-    repeat char[3] count,
-    repeat Party,
-    char[] tag7,
-    @rightPad('0')
-    char[2] clOrdID,
+	@leftPad('0')
+	char[10] UserName `" ++ [29992; 25143; 21517]%N ++ runes_of_ascii "`,
+	string Password `" ++ [23494; 30721]%N ++ runes_of_ascii "`,
+	uint64 ClientId `" ++ [23458; 25143; 31471]%N ++ runes_of_ascii "ID`,
+	u16 HeartbeatInterval `" ++ [24515; 36339; 38388; 38548]%N ++ runes_of_ascii "`,
 }
 
-packet Order {
-    InTail13 {
-        Party,
-    },
-    repeat char[4] count,
+packet Logout {
+	@rightPad('0')
+	char[10] UserName `" ++ [29992; 25143; 21517]%N ++ runes_of_ascii "`,
+	uint64 ClientId `" ++ [23458; 25143; 31471]%N ++ runes_of_ascii "ID`,
 }
 
-root packet Cancel {
-    Logout,
-    @leftPad('0')
-    char[9] msgKind,
-    string lastPx,
-    string tag7,
-    zchar[1] OrderId,
-    repeat Party,
-    u16 sym,
-    u16 Acct @lengthOf(Body),
-    match sym as Body {
-        [24, 44] : Logout,
-        160 : Order,
-        91 : Logon,
-        43 : Party,
+packet Heartbeat {
+}
+
+packet RiskControlRequest {
+	string UniqueOrderId `" ++ [21807; 19968; 35746; 21333; 21495]%N ++ runes_of_ascii "`,
+	char[16] ClOrdID `" ++ [23458; 25143; 35746; 21333; 21495]%N ++ runes_of_ascii "`,
+	char[3] MarketID `" ++ [24066; 22330]%N ++ runes_of_ascii "id`,
+	char[12] SecurityID `" ++ [35777; 21048; 20195; 30721]%N ++ runes_of_ascii "`,
+	char Side `" ++ [20080; 21334; 26041; 21521]%N ++ runes_of_ascii "`,
+	char OrderType `" ++ [35746; 21333; 31867; 22411]%N ++ runes_of_ascii "`,
+	u64 Price `" ++ [20215; 26684]%N ++ runes_of_ascii "`,
+	u32 Qty `" ++ [25968; 37327]%N ++ runes_of_ascii "`,
+	repeat string ExtraInfo `" ++ [38468; 21152; 20449; 24687]%N ++ runes_of_ascii "`,
+	repeat SubOrder {
+		char[16] ClOrdID `" ++ [23376; 35746; 21333; 21495]%N ++ runes_of_ascii "`,
+		u64 Price `" ++ [23376; 35746; 21333; 20215; 26684]%N ++ runes_of_ascii "`,
+		u32 Qty `" ++ [23376; 35746; 21333; 25968; 37327]%N ++ runes_of_ascii "`,
+	},
+}
+
+packet RiskControlResponse {
+	string UniqueOrderId `" ++ [21807; 19968; 35746; 21333; 21495]%N ++ runes_of_ascii "`,
+	i32 Status `" ++ [29366; 24577]%N ++ runes_of_ascii "`,
+	string Msg `" ++ [32467; 26524; 20449; 24687]%N ++ runes_of_ascii "`,
+	repeat Detail,
+}
+
+packet Detail {
+	string RuleName `" ++ [35268; 21017; 21517; 31216]%N ++ runes_of_ascii "`,
+	u16 Code `" ++ [21407; 22240; 20195; 30721]%N ++ runes_of_ascii "`,
+}")).
+Eval vm_compute in ("<<<M154>>>" ++ check (runes_of_ascii "root packet // packet A { u8 x, }
+a1 {
+    // " ++ [27880; 37322]%N ++ runes_of_ascii "
+    repeat leftPad {
+    // a // b
+    lengthOf
+, }
+    ,
+    @tag(// c
+0123456789)int64 repeatCount ``,	match
+int as len {
+1 : repeatCount , """" : lengthOf,
+[
+""a\""b""
+    , 255,
+7 ,""it's"" ,255,
+    00 , 7 , ""`tick`""
+    //
+    ]
+    : msg_type , 42 :body
+    ,
+    } ,
+    repeat asx { charz { char[ 007 ]f32a ,
+    // a // b
+    } ,match
+    u as
+    Z9_ { """ ++ [233]%N ++ runes_of_ascii "t" ++ [233]%N ++ runes_of_ascii """ : float
+,
+    // c
+    ""1""
+: Pad , [
+    """", 10 ] // packet A { u8 x, }
+: Header , [ 42 ]: repeatCount , 00// a // b
+: T , } , } ,
+@rightPad ( ' ' )
+falsey,
+    @tag( 0) @calculatedFrom(	""1"" )
+@leftPad (
+    '\x00') o , }
+    MetaData i64_{ } packet x{
+@lengthOf( Header) repeat
+msg_type {
+    repeat char[ 0123456789 ] u,
+    // packet A { u8 x, }
+    uint32
+BodyLength	@lengthOf( _x) `crlf
+line` , },} MetaData Header { Header
+    options1,
+    f32a
+stringy ,
+    char[] uint8x `a\` , char[ // trailing space 
+1
+    // packet A { u8 x, }
+    ] u128, i32 Z9_
+    ,
+    float32 // a // b
+msg_type,
+    }
+
+")).
+Eval vm_compute in ("<<<M3532>>>" ++ check (runes_of_ascii "options {
+    StringPrefixLenType = u32;
+    ArrayPrefixLenType = u8;
+    FixedStringPadFromLeft = false;
+}
+packet Logon {
+    i8 venue,
+    int16 f1,
+    zchar[8] Acct,
+    repeat InNote16 {
+        InQty73 {
+            float32 tag7,
+        },
+        f32 Acct,
+        zchar[5] sym,
+    },
+    uint16 Side2,
+    i32 lastPx,
+}
+packet Fill {
+    repeat InOrderid15 {
+        zchar[8] sym,
+        repeat char[2] OrderId,
+        repeat Logon,
+        InQty82 {
+            char[] Tail,
+            repeat Logon,
+            float64 price,
+            f64 Side2,
+        },
+        char[12] venue,
+        char[4] Px,
+    },
+    @rightPad('0') char[2] venue,
+    InPrice99 {
+        InAcct72 {
+            u8 pad0,
+        },
+        u32 OrderId,
+        Logon,
+    },
+}
+root packet Reject {
+    zchar[9] msgKind,
+    u32 venue,
+    u16 seqNo @lengthOf(Body),
+    match venue as Body {
+        57 : Fill,
+        8 : Logon,
     },
     u16 Tail @calculatedFrom(""CRC32""),
-}")).
-Eval vm_compute in ("<<<M1107>>>" ++ check (runes_of_ascii "packet falsey
-{
-    // trailing space 
-    @lengthOf(
-_x
-    // @lengthOf(
-    ) @calculatedFrom(
-// packet A { u8 x, }
-//
-""`tick`"" )
-    repeat body
-    //
-    ,
-    i64 packetx , repeat u64 chars
-    // " ++ [128512]%N ++ runes_of_ascii " emoji
-    ,@leftPad
-(// packet A { u8 x, }
-) @calculatedFrom( ""a\""b"")	BodyLength {
-rootA
-    pack
-//
-/// triple
-,//x
-char[1 ]
-uint8x`u8 x,`
-, match Packet
-as
-roots {  ""a	b"" : crc
-    ,}	,  } , int32 MetaDataX , @calculatedFrom(
-    ""// no comment""
-)
-    x
-Z9_ `
-` , }packet
-falsey  {}
-    options
-{ options1 = '\x00'
-;Foo
-//
-// `tick` ""quote"" 'q'
-=false
-; lengthOf
-= """ ++ [28040; 24687]%N ++ runes_of_ascii """A  =
-//	t
-// " ++ [128512]%N ++ runes_of_ascii " emoji
-255
-    ; repeatCount  =
-    """ ++ [233]%N ++ runes_of_ascii "t" ++ [233]%N ++ runes_of_ascii """
-} packet body {
-// `tick` ""quote"" 'q'
-// " ++ [27880; 37322]%N ++ runes_of_ascii "
-@rightPad ( ) repeat u `it's` , char[ 255 //	t
-] charz @lengthOf(
-    x )
-,
-    //
-    zchar[ 3
-]
-chars , zchar@calculatedFrom(
-""`tick`""// `tick` ""quote"" 'q'
-) , }
-")).
-Eval vm_compute in ("<<<M61>>>" ++ check (runes_of_ascii "  root packet pack {zchar[	255
-    ] T`a\`
-    , char[] Z9_ @lengthOf(
-// c
-//x
-u8x  )
-    `two words` , A
-{ repeat  char[]
-    x  ``,
-// @lengthOf(
-/// triple
-repeat zchar[ //
-007  ] i64_
-    ,  } , uint8x @lengthOf(
-    i64_
-    )	``,
 }
-packet	calculatedFrom{ @leftPad ( )
-u32	calculatedFrom``
-,
-@tag(0123456789 // " ++ [27880; 37322]%N ++ runes_of_ascii "
-)@leftPad ( ) int8 _x
-``
-,
-match rootA as  u { // c
-10
-: Z9_ , 0123456789: float
-//
-// c
-0: float ,
-[ ""it's""/// triple
-]
-:
-packetx , } ,// `tick` ""quote"" 'q'
-@lengthOf( string_ ) zchar[ 0123456789
-    ] body @lengthOf(
-repeatCount	) ,
-    @calculatedFrom( ""\n"" ) match // `tick` ""quote"" 'q'
-body as u8x{ ""a\""b""
-    :T , [ ""\n"" ,// " ++ [27880; 37322]%N ++ runes_of_ascii "
-""" ++ [233]%N ++ runes_of_ascii "t" ++ [233]%N ++ runes_of_ascii """, ""CRC32"", 255 ,7
-, ""// no comment""
-,
-    """ ++ [28040; 24687]%N ++ runes_of_ascii """] : x , 255	: packetx } , @tag(65535 ) repeat
-    // a // b
-    Header
-zchar , } MetaData Logon { }
 ")).
-Eval vm_compute in ("<<<M63>>>" ++ check (runes_of_ascii "// trailing space 
-options{
-    asx = """ ++ [233]%N ++ runes_of_ascii "t" ++ [233]%N ++ runes_of_ascii """ zchar = 7 i8i8=65535 ;	Pad =i8
-; } // a // b
-MetaData
-    string_  { //	t
-char[ 0 // packet A { u8 x, }
-]zchar ,// `tick` ""quote"" 'q'
-char[ 4294967296] msg_type ,
-u16
-MetaDataX `" ++ [233]%N ++ runes_of_ascii "`,} root packet Foo{	f64
-BodyLength
-@lengthOf(
-repeatCount ) ,
-repeat asx {
-char[ 00] stringy // `tick` ""quote"" 'q'
-@lengthOf( Foo)
-    ,  i8 string_,}
-    ,
-float64 i8i8 `say ""hi""` ,  @tag( 0 ) MetaDataX
-    {// " ++ [27880; 37322]%N ++ runes_of_ascii "
-repeat uint16 stringy
-,	repeat x_y_z , asx, } ,
-    @rightPad( '\x00' ) repeat
-    char[7
-] metadata
+Eval vm_compute in ("<<<M387>>>" ++ check (runes_of_ascii "
+root  packet chars{
+match options1
+as zchar { ""a\\""
+: Packet }
+    // c
+    ,u16	metadata @calculatedFrom( ""{,}"" ) ,	repeat A msg_type , @calculatedFrom( ""CRC32"")@lengthOf(
+    float ) @lengthOf(MetaDataX )
+repeat zchar[0123456789 ] Z9_// c
+`{ , }` , @tag(7)
+// trailing space 
 // a // b
-// " ++ [27880; 37322]%N ++ runes_of_ascii "
-, i16 x
-, match falsey
-    as
-asx	{""a\""b""
-:
-    u ,} // @lengthOf(
-,// trailing space 
-@calculatedFrom(  """"//
-)
-match f32a
-as
-u8x {
+float32
+crc
+// trailing space 
+// packet A { u8 x, }
+@lengthOf(charz )
+, @tag(
+// packet A { u8 x, }
+//	t
+3 ) calculatedFrom Pad, // c
+repeat int32 trueish
+, }
+    options  {A = zchar[
+65535 ] Logon = ""abc""
+chars =
+    7 Pad = ""\" ++ [233]%N ++ runes_of_ascii """
+    }packet int // @lengthOf(
+{ @lengthOf(
+MetaDataX ) @calculatedFrom(
+// packet A { u8 x, }
+// a // b
+""\" ++ [233]%N ++ runes_of_ascii """
+) zchar[
+    4294967296
+] matchKey @lengthOf( Pad)
+`" ++ [28040; 24687; 31867; 22411]%N ++ runes_of_ascii "`
+    ,
+}
+packet As
+{
+@lengthOf( BodyLength )
+    u64 matchKey ,u64
+    trueish `" ++ [28040; 24687; 31867; 22411]%N ++ runes_of_ascii "` , @rightPad
+( )char[
+00]
+    A
+@calculatedFrom(
+    """ ++ [128512]%N ++ runes_of_ascii """ )`say ""hi""`	, repeatCount@lengthOf(BodyLength
+// a // b
+// `tick` ""quote"" 'q'
+) ,
+len  ,}")).
+Eval vm_compute in ("<<<M149>>>" ++ check (runes_of_ascii "MetaData As{
+    u//
+matchKey	, char[] T	, char[] Foo// @lengthOf(
+`{ , }`,
+    }root
+packet
+    T { @lengthOf(
+tag ) @tag( 0123456789 ) match repeatCount as
+    BodyLength { """ ++ [233]%N ++ runes_of_ascii "t" ++ [233]%N ++ runes_of_ascii """  :o ,
+65535 : float,
+    ""a	b""	: _x , [ ""x y"" , 65535
+// packet A { u8 x, }
 //x
+] : string_ ,}
+,}
+    root packet
+_x { match msg_type
+    // trailing space 
+    as
+    f32a {""\" ++ [233]%N ++ runes_of_ascii """ : Header 3	:
+repeatCount [7, ""a	b"" ] :
+_x
+, ""it's"":
+stringy 10
+:
+//	t
+/// triple
+As ,""it's"" :lengthOf }
+, @calculatedFrom(""packet"" ) int64// `tick` ""quote"" 'q'
+falsey ,	@leftPad// packet A { u8 x, }
+( )
+//	t
 //
-""a\""b"":matchKey , } //
+char[ 1 ]len// @lengthOf(
+@lengthOf( Foo ) ,	chars
+T ,
+    zchar[
+007	]	options1
 ,
-x `" ++ [233]%N ++ runes_of_ascii "`  ,char[
-65535 ]
-string_ `u8 x,` , }
+match f32a as
+asx
+{[ ""1"" ] :matchKey, """ ++ [28040; 24687]%N ++ runes_of_ascii """: As ,
+    // c
+    4294967296 : options1 ,
+}
+    , }	MetaData o
+    {	zchar[ 42] repeatCount ,packetx falsey,Packet options1
+`{ , }` ,} options { falsey = ""a\\""	} // " ++ [128512]%N ++ runes_of_ascii " emoji")).
+Eval vm_compute in ("<<<M1023>>>" ++ check (runes_of_ascii "packet
+matchKey {
+} MetaData
+    string_{ //	t
+pack repeatCount
+`{ , }` ,
+char[ 7 ] x , i32
+crc
+, Logon chars , uint32 o , Packet charz
+    ,
+}MetaData calculatedFrom {	int64 uint8x ,i16
+    o `// not a comment`, //x
+float float
+    , } packet stringy { }packet  len { repeat pack `{ , }` , @rightPad (' '
+) match i64_ as/// triple
+i64_ // @lengthOf(
+{
+""1"":
+As [4294967296 ] ://
+Logon , // `tick` ""quote"" 'q'
+0123456789 :options1 , 4294967296
+: roots}/// triple
+, char[ 3 ] rootA
+    @lengthOf( int )
+,
+    @leftPad
+(' ')
+// a // b
+/// triple
+@calculatedFrom(
+""abc"" )@leftPad (
+) zchar[
+    255 ]
+    _x@calculatedFrom(""{,}"" )
+, chars charz `a\` , @lengthOf(  roots )
+// a // b
+// a // b
+match u8x as
+    Z9_
+// " ++ [27880; 37322]%N ++ runes_of_ascii "
+/// triple
+{
+    // packet A { u8 x, }
+    65535  : a1 , 65535 :x_y_z ""a	b"" :MetaDataX , } , tag
+,} 	 ")).
+Eval vm_compute in ("<<<M468>>>" ++ check (runes_of_ascii "root packet //
+len{
+    char[ 1]As , i64 T	@lengthOf( u8x
+)	`u8 x,` , repeat int16
+/// triple
+// " ++ [128512]%N ++ runes_of_ascii " emoji
+i8i8`" ++ [233]%N ++ runes_of_ascii "` , @tag( 42 ) match chars as calculatedFrom
+    {[ ""a\\"", 0
+] : // " ++ [27880; 37322]%N ++ runes_of_ascii "
+trueish
+3
+    : BodyLength
+    ""{,}"" : len } , // a // b
+repeat zchar[
+4294967296 ]
+A
+    ``, repeat char uint8x  `it's`
+,}packet// " ++ [27880; 37322]%N ++ runes_of_ascii "
+x_y_z {	@lengthOf(matchKey ) @tag(
+    3
+    )@calculatedFrom( ""\" ++ [233]%N ++ runes_of_ascii """  )
+    string
+    lengthOf@calculatedFrom(
+""" ++ [233]%N ++ runes_of_ascii "t" ++ [233]%N ++ runes_of_ascii """ ) , } root
+packet //
+int
+// trailing space 
+// packet A { u8 x, }
+{ repeat BodyLength { match Pad as chars {[ ""`tick`""]
+:
+    // a // b
+    zchar,[ """ ++ [28040; 24687]%N ++ runes_of_ascii """ , ""CRC32"" ,""// no comment""] : repeatCount
+,  1 :metadata
+, 3 : As , 3 : lengthOf } ,
+u32 A // " ++ [27880; 37322]%N ++ runes_of_ascii "
+`// not a comment` ,
+//x
+//x
+f64 stringy @lengthOf( As )`" ++ [233]%N ++ runes_of_ascii "`
+    , o
+,
+}
+, }
+    packet
+zchar {}
 // c
 ")).
-Eval vm_compute in ("<<<M3512>>>" ++ check (runes_of_ascii "options {
-    LittleEndian = false;
-    StringPrefixLenType = u16;
-    ArrayPrefixLenType = u32;
-}
-packet Order {
-    uint8 x,
-    repeat string venue,
-}
-packet Heartbeat {
-    i64 count,
-    zchar[1] Qty,
-    repeat InX29 {
-        InSeqno26 {
-            int64 f1,
-            char[5] Acct,
-            Order,
-        },
-        repeat InSide285 {
-            repeat Order,
-            char[10] Px,
-            zchar[9] OrderId,
-        },
-        char[] venue,
-        Order,
-    },
-    @rightPad('\x00') char[4] clOrdID,
-}
-root packet Party {
-    zchar[3] f1,
-    u32 clOrdID,
-    u32 Px @lengthOf(Body),
-    match clOrdID as Body {
-        [180, 64] : Heartbeat,
-        11 : Order,
-    },
-    u32 Side2 @calculatedFrom(""CRC32""),
-}
-")).
-Eval vm_compute in ("<<<M663>>>" ++ check (runes_of_ascii "packet lengthOf {	@lengthOf( As ) Foo { repeat string
-f32a ,crc
-    @calculatedFrom( ""CRC32"")
-, } ,
-uint8x @calculatedFrom(
-""CRC32""
-) ,string charz	@calculatedFrom(""\" ++ [233]%N ++ runes_of_ascii """ ), @rightPad ( '\x00'
-// trailing space 
-//
-)	u16 int @lengthOf(
-    x )
-, tag string_ // @lengthOf(
-`" ++ [233]%N ++ runes_of_ascii "`  , MetaDataX @calculatedFrom( ""1"")//	t
-, @tag(
-    7  ) @calculatedFrom( """"
-)// " ++ [27880; 37322]%N ++ runes_of_ascii "
-@lengthOf(As)trueish	@lengthOf(// @lengthOf(
-Logon  )
-`two words`  ,}options {
-    Foo /// triple
-= char[
-    // trailing space 
-    10]}packet
-    // @lengthOf(
-    calculatedFrom { match charz as u128{ [
+Eval vm_compute in ("<<<M924>>>" ++ check (runes_of_ascii "options {msg_type=	int64 ;// `tick` ""quote"" 'q'
+tag // c
+=
+// `tick` ""quote"" 'q'
+// " ++ [128512]%N ++ runes_of_ascii " emoji
+true falsey = ' '
+    ;  } MetaData float
+// a // b
 /// triple
-// packet A { u8 x, }
-0123456789 ,
-""packet"" ,
-    /// triple
-    ""\n""
-    , 00 , 1 ,  ""1""
-,"""" ] :
-    //x
-    Foo} , }")).
-Eval vm_compute in ("<<<M4049>>>" ++ check (runes_of_ascii "root packet i64_ // " ++ [27880; 37322]%N ++ runes_of_ascii "
-	{match 	 // " ++ [128512]%N ++ runes_of_ascii " emoji
-	rootA
-as stringy {
-10 
-:
-
-    int
-
-,  7 :chars
+{
+    chars
+    pack  , o Pad
+, // `tick` ""quote"" 'q'
+rootA int , // `tick` ""quote"" 'q'
+i64 Logon, char[ 00 ]lengthOf
+`two words` , u128 u8x
+    `// not a comment`
 ,
-7: int 4294967296
-	:  // @lengthOf(
-    Foo  ,	[// trailing space 
-7
-    , """ ++ [28040; 24687]%N ++ runes_of_ascii """	]
+    }MetaData packetx { }root	packet uint8x
+    { @lengthOf( matchKey ) MetaDataX {o { repeat
+uint16 i64_ , uint64  msg_type
+@calculatedFrom( """"  ) , } , //
+repeat i64 BodyLength
+    `u8 x,`
+    , char[] Z9_
+,} , //
+char[ 3]
+stringy
+    ,
+    @lengthOf(
+uint8x
+) @calculatedFrom(	""abc""	)
+A
+    `" ++ [28040; 24687; 31867; 22411]%N ++ runes_of_ascii "` ,
+i32
+    msg_type  , i8 f32a @lengthOf( falsey ) , @calculatedFrom( ""CRC32"" ) u8
+    MetaDataX  @calculatedFrom(
+""`tick`"" ), }
+")).
+Eval vm_compute in ("<<<M4200>>>" ++ check (runes_of_ascii "packet roots {
+    @calculatedFrom(""CRC32"")
+    @tag(42)
+    Z9_ leftPad `line1
+        line2`,
+    @lengthOf(string_)
+    @lengthOf(Packet)
+    @calculatedFrom(""// no comment"")
+    repeat chars len,
+    @tag(42)
+    @tag(3)
+    u8 u128 @lengthOf(A),
+    char T,
+    @lengthOf(charz)
+    // `tick` ""quote"" 'q'
+    zchar lengthOf,
+    repeat zchar[00] A,
+    char[4294967296] leftPad `u8 x,`,
+    @tag(4294967296)
+    @tag(007)
+    repeat char[65535] float `two words`,
+}
 
-:  // c
-    BodyLength [
+packet crc {
+    msg_type @lengthOf(chars),
+    string chars @lengthOf(u128),
+    int64 Header,
+    match lengthOf as pack {
+        [255, ""packet""] : i64_,
+        //x
+        1 : u,
+    },
+    trueish @lengthOf(packetx),
+    charz @lengthOf(packetx),
+}")).
+Eval vm_compute in ("<<<M4180>>>" ++ check (runes_of_ascii "
 
-0 ,""1""
+  root	packet
+
+i64_	// " ++ [27880; 37322]%N ++ runes_of_ascii "
+	{
+match	// " ++ [128512]%N ++ runes_of_ascii " emoji
+    	rootA
+as
+stringy
+
+    {
+
+10 :
+    int ,
+    7
+:
+chars  , 7
+:int 4294967296
+    : 	 // @lengthOf(
+Foo
+	,
+[  // trailing space 
+	7
+
+, """ ++ [28040; 24687]%N ++ runes_of_ascii """
+
+] :	// c
+    BodyLength [ 0
+
+    ,""1""
+
+    , 00 ,7
 
     ,
-
-00, 7
-,
-	""it's""]
-: As
-    , } ,
-	repeat
-    char[]  a1
-`u8 x,` ,
-	@leftPad
+""it's"" ]
+:	As
+	, 
+}  , repeat
+	char[]  a1
+    `u8 x,` , @leftPad 
     // packet A { u8 x, }
-		// " ++ [27880; 37322]%N ++ runes_of_ascii "
-    (
 
-// trailing space 
+  // " ++ [27880; 37322]%N ++ runes_of_ascii "
+	  ( 
+      // trailing space 
 
-' '
-	)
-    packetx,
-	@calculatedFrom(
-""\n"" 
-)	repeat
-matchKey {  char[
-	7 
-        // `tick` ""quote"" 'q'
-	  ]
-falsey`crlf
-line`
-,
-	} ,
+' '  )
+	packetx,
+    @calculatedFrom(  ""\n"" ) repeat
 
+matchKey  {char[7
+	    // `tick` ""quote"" 'q'
+]
+    falsey`crlf
+line`	,
+} , 
     // c
     	/// triple
-    @lengthOf(
-f32a)
-    uint8
-Z9_
-,
-    // a // b
-	//	t
-    falsey
-,
-repeat
-leftPad
 
-, @tag(1 
-) 
+	@lengthOf(f32a )
+uint8 Z9_
+, 
+// a // b
+    //	t
+    falsey	, repeat
+    leftPad ,  @tag(
+
+1
+	) 
 u8x
-	@lengthOf(i64_ )
-	,}
 
-")).
-Eval vm_compute in ("<<<M349>>>" ++ check (runes_of_ascii "root
-packet packetx{ match x
-as repeatCount // " ++ [128512]%N ++ runes_of_ascii " emoji
-{ 65535 //x
-: i8i8 10 :
-x_y_z 42// @lengthOf(
-: packetx 0123456789
-:metadata[ ""\" ++ [233]%N ++ runes_of_ascii """]
-    :
-    x_y_z
-,
-""a\\""
-:i8i8
-, } , stringy { // c
-stringy
-    i64_ , repeat Header As
-    `two words` ,
-    } , repeat char[ 007// `tick` ""quote"" 'q'
-] u8x
-    `line1
-line2` , @lengthOf( charz )
-    // packet A { u8 x, }
-    @leftPad (
-'0' ) int16 BodyLength ,  repeat
-float32 repeatCount	, match trueish as MetaDataX
-    { ""a	b""
-    // a // b
-    :
-    x	,	}
-,char[ 0 ] matchKey @lengthOf( float ) , @lengthOf( i64_)@lengthOf( repeatCount
-) // " ++ [27880; 37322]%N ++ runes_of_ascii "
-@lengthOf(
-float )f32 Z9_ , }")).
-Eval vm_compute in ("<<<M4017>>>" ++ check (runes_of_ascii "
+@lengthOf(  i64_
 
-  options{LittleEndian
-=true
-;
-
-FixedStringPadFromLeft
-
-    = true ;
-
-FixedStringPadChar =
-    '0';
-}
-
-packet Trade  { string
-	clOrdID
-
-    ,
-
-char[]
-
-    Px,  u32	x
-,
-	} 
-packet Reject
-	{ int32 Side2
-    ,	repeat	char[  3
-
-    ] 
-clOrdID, i32 tag7	,
-} packet
-
-Leg
-{ 
-}
-root
-    packet Quote 
-{  string	Side2 
-,
-string  lastPx,  InSym58 {
-	int16 OrderId
-	,
-    Reject ,	i8 Qty  , 
-i64 
-venue 
-,  f32	Note
-,}	,char[]
-count
-    ,
-zchar[
-    9  ]
-
-    price
-
-,u16
-Qty
-,match  Qty
-    as
-
-Body
-{69 :
-Leg 
-, 48
-: Trade
-
-,
-	51
-
-:
-	Reject  ,}
-
-, u16 Acct@calculatedFrom(
-""CRC32""
-) , } ")).
-Eval vm_compute in ("<<<M4087>>>" ++ check (runes_of_ascii "packet MetaDataX {
-    T @lengthOf(trueish) ``,
-    @rightPad(' ')
-    repeat options1 A `" ++ [233]%N ++ runes_of_ascii "`,
-    options1 @lengthOf(lengthOf) `u8 x,`,
-}
-
-root packet As {
-    repeat Logon `
-        `,
-    @calculatedFrom(""" ++ [28040; 24687]%N ++ runes_of_ascii """)
-    // packet A { u8 x, }
-    zchar[3] T,
-    match Foo as u {
-        [""`tick`""] : As,
-    },
-}
-
-packet charz {
-    @lengthOf(u)
-    match charz as zchar {
-        [""" ++ [128512]%N ++ runes_of_ascii """, ""packet""] : crc,
-        [
-            7, 10, 7, 3, 4294967296,
-            ""a\\""
-        ] : string_,
-        [3] : As,
-        10 : uint8x,
-        65535 : matchKey,
-    },
+    ) , 
 }")).
-Eval vm_compute in ("<<<M472>>>" ++ check (runes_of_ascii "packet
-    chars{@lengthOf(
-//
-// packet A { u8 x, }
-Foo
-    ) @tag(
-65535 )@calculatedFrom(  ""a	b""
-) match stringy as
-    float { 10
-:trueish ,[ 4294967296 ,""a\\""
-/// triple
+Eval vm_compute in ("<<<M1066>>>" ++ check (runes_of_ascii "MetaData
+zchar{ } packet
+Packet { u16 x  @calculatedFrom(
+    """ ++ [28040; 24687]%N ++ runes_of_ascii """ )
+``
+,
+    // " ++ [128512]%N ++ runes_of_ascii " emoji
+    @tag(	7 )	@tag( 00)
+Packet u128,	@lengthOf( //
+float )
+match A
+as
 // trailing space 
-,255 , ""a\""b"" ,0,""" ++ [128512]%N ++ runes_of_ascii """, ""`tick`""] :Header }
-    ,
-}packet u8x { int
-    //
-    @calculatedFrom(
-    """ ++ [233]%N ++ runes_of_ascii "t" ++ [233]%N ++ runes_of_ascii """
-) // packet A { u8 x, }
-`" ++ [28040; 24687; 31867; 22411]%N ++ runes_of_ascii "` //	t
-,@leftPad
-( )A int
-    , @tag( 10
-    )
-match roots // `tick` ""quote"" 'q'
-as a1{ ""x y"" : u // `tick` ""quote"" 'q'
-,
-    }
-,} MetaData falsey {	i8 metadata
-    `{ , }`
-, } // trailing space ")).
-Eval vm_compute in ("<<<M3963>>>" ++ check (runes_of_ascii "
-packet Packet	{ int16
-
-    f32a
-
-, match //	t
-    string_
-	as	u8x
-    {
-	""" ++ [128512]%N ++ runes_of_ascii """ : 
-msg_type , [
-""{,}""
-	, 4294967296
-
-]
-	    // " ++ [27880; 37322]%N ++ runes_of_ascii "
-    :  metadata 0123456789	:matchKey	, 3 
+// @lengthOf(
+charz
+{00 // `tick` ""quote"" 'q'
+: x ,[ 0 ,
+255
+, ""it's"" ,10
+    ] : Packet
+    , ""a\\"":  metadata
+, [// c
+""`tick`"" , 10 ] /// triple
 :
-
-    zchar ,
-}  // `tick` ""quote"" 'q'
-,uint16
-	As @calculatedFrom( ""a	b""	)
+chars , [ ""a\""b"" // packet A { u8 x, }
+] :trueish, } ,uint64 string_ // trailing space 
 ,
-@rightPad( ) repeat zchar[  3]
-u128
-
-    , }
-
-root
+@rightPad
+(// a // b
+' ')  float64
+    stringy `line1
+line2`  ,  @tag( 00 //
+)	uint16 As , }//	t
+options {Logon =
+    false  ;
+    // a // b
+    body =
+    f64 // c
+; } MetaData asx { } packet leftPad{float @lengthOf( A ) `a\`  ,
+}
+// " ++ [27880; 37322]%N ++ runes_of_ascii "
+")).
+Eval vm_compute in ("<<<M4084>>>" ++ check (runes_of_ascii "  root
 
 packet
-u8x	{	// `tick` ""quote"" 'q'
-  	o
-,
-@calculatedFrom(
-	""{,}"") f32  x_y_z  @lengthOf(
-
-A
-
-    )//
-    ,
-	@lengthOf( uint8x
-)  // `tick` ""quote"" 'q'
-	  repeat zchar[
-7]
-	uint8x 
-,
-}
-")).
-Eval vm_compute in ("<<<M11>>>" ++ check (runes_of_ascii "packet u128 {
-@rightPad ( )
-@tag( 7) stringy
-body , }// packet A { u8 x, }
-root
-    packet // " ++ [27880; 37322]%N ++ runes_of_ascii "
-i64_
-    { }
-    packet falsey	{
-float@lengthOf(_x //	t
-)`" ++ [233]%N ++ runes_of_ascii "`
-, i32 a1 ,
-u {//	t
-string	crc
-,  } ,@leftPad
-    // a // b
-    (
-)repeat
-    options1 { calculatedFrom @calculatedFrom(
-    ""it's"" ) `{ , }`	, zchar falsey `u8 x,` ,repeat falsey  , }
-// packet A { u8 x, }
-//x
-, }root // " ++ [128512]%N ++ runes_of_ascii " emoji
-packet pack
-    { @tag( 0123456789 ) // @lengthOf(
-repeat
-//
-// " ++ [27880; 37322]%N ++ runes_of_ascii "
-uint32
-roots, }")).
-Eval vm_compute in ("<<<M1359>>>" ++ check (runes_of_ascii "MetaData calculatedFrom { float // " ++ [27880; 37322]%N ++ runes_of_ascii "
-len , u8
-uint8x , falsey	string_
-// packet A { u8 x, }
-// a // b
-,
-} MetaData
-falsey { } packet // @lengthOf(
-T
+	stringy 
 {
-//x
-//x
-zchar[ 007 ] Packet @calculatedFrom(
-    ""// no comment"" )`{ , }` , repeat
-    u64 metadata //	t
+
+    repeat 
+char[]  MetaDataX 
+, @calculatedFrom(
+""CRC32""
+    )  body, @tag(	// @lengthOf(
+42
+) @rightPad
+(' '
+    )
+@rightPad(
+
+) 	 // packet A { u8 x, }
+  repeat
+
+u8x
+{
+    BodyLength @lengthOf(A
+
+    )
+	, }
+
+    , match 
+f32a as
+x_y_z {
+
+4294967296  :
+	Foo ,	} 
+// @lengthOf(
+	  //x
 ,
-u { char[255] T `u8 x,` , body,zchar[
-255]	repeatCount
-,},// a // b
-@calculatedFrom( ""// no comment""
-    )@leftPad( '\x00' )
-@lengthOf(
-    i64_) zchar[ 65535 ]float @lengthOf(trueish ) , }
-")).
-Eval vm_compute in ("<<<M3748>>>" ++ check (runes_of_ascii "options {
-    x = ""it's""
-}
+    repeatCount { uint8
+    As 
+      /// triple
+    // a // b
 
-MetaData falsey {
-    char[0123456789] lengthOf,
-    zchar[0123456789] stringy,
-    falsey metadata,
-    zchar[007] rootA ``,
-}
+	`a\` 	 // a // b
 
-MetaData trueish {
-    int8 x,
-    f32 len,
-    pack BodyLength `a\`,
-}
-
-packet Pad {
-    @leftPad('0')
-    u8x @calculatedFrom(""CRC32""),
-}
-
-root packet _x {
-    msg_type {
-        lengthOf,
-        uint32 packetx ``,
+  ,
     },
-    repeat int64 zchar `line1
-    line2`,
-    body Header,
-}")).
-Eval vm_compute in ("<<<M456>>>" ++ check (runes_of_ascii "MetaData  rootA {
-char[ 42 ] body `tab	here` , string pack, zchar[ 65535 ]A // trailing space 
-`it's` ,i64_
-    Pad , } MetaData
-leftPad { int16 u, } packet trueish
-{ @tag(00
-    ) char[ 42 ]
-    MetaDataX `crlf
-line` , @lengthOf(asx  ) chars
-charz
-    ,@rightPad
-//
-// c
-(
-'0')
-@lengthOf( a1 ) char[] Packet @calculatedFrom( ""x y"" )  `crlf
-line` , len i8i8 , @rightPad (
-    '\x00')options1 {	x
-@lengthOf( Z9_ ) , } ,}")).
-Eval vm_compute in ("<<<M3287>>>" ++ check (runes_of_ascii "// top
+
+} 
+packet
+	u
+	{  repeat // `tick` ""quote"" 'q'
+char	charz
+    ,
+	} options  { Header
+=
+char
+	; }
+
+root
+
+packet	i64_
+    { u8
+	Z9_ `
+` 
+, @calculatedFrom(
+""1"")
+    u128  float	,} options
+    {
+_x 
+= 00
+;
+    } ")).
+Eval vm_compute in ("<<<M3552>>>" ++ check (runes_of_ascii "// top
 packet
     // c0
-u128
-    // c1
+Sub // c1
 {
     // c2
-@lengthOf(
-    // c3
-body
-    // c4
-)
-    // c5
-match
-    // c6
-x_y_z
-    // c7
-as
-    // c8
-u
+u8 // c3a
+  // c3b
+a // c4
+, // c5
+u32 SubSum @calculatedFrom( // c8a
+  // c8b
+""CRC16""
     // c9
-{
-    // c10
-""x y""
-    // c11
-:
-    // c12
-i8i8
-    // c13
-,
+) // c10a
+  // c10b
+, } // c12a
+  // c12b
+root // c13
+packet
     // c14
-}
-    // c15
-,
-    // c16
-@tag(
+Frame // c15a
+  // c15b
+{ // c16a
+  // c16b
+u16
     // c17
-255
-    // c18
-)
+MsgType // c18a
+  // c18b
+,
     // c19
-char[]
-    // c20
-roots
-    // c21
+u16 // c20a
+  // c20b
+BodyLen // c21
 @lengthOf(
     // c22
-int
-    // c23
-)
-    // c24
-,
-    // c25
-}
-    // c26
+Body ) , Sub // c26a
+  // c26b
+Body
+    // c27
+, // c28
+string note
+    // c30
+, // c31a
+  // c31b
+u32 // c32a
+  // c32b
+Checksum @calculatedFrom( // c34a
+  // c34b
+""CRC16""
+    // c35
+) // c36
+, u8 // c38
+tail // c39
+, // c40
+} // c41
 ")).
-Eval vm_compute in ("<<<M4248>>>" ++ check (runes_of_ascii "packet As {
-    repeatCount @lengthOf(tag),
-    trueish {
-        i64 a1,
-        Z9_ @calculatedFrom(""CRC32""),
-        char[42] rootA,
-        repeat u128 _x,
-    },
-    @lengthOf(string_)
-    i8 falsey,
-    @leftPad(' ')
-    @rightPad(' ')
-    match calculatedFrom as leftPad {
-        65535 : leftPad,
-        [00, 1, 1, 3, ""\n""] : repeatCount,
-        [42, """ ++ [128512]%N ++ runes_of_ascii """] : i8i8,
-    },
-}// " ++ [128512]%N ++ runes_of_ascii " emoji")).
-Eval vm_compute in ("<<<M964>>>" ++ check (runes_of_ascii "
-root packet
-asx { @calculatedFrom( ""CRC32""
-// " ++ [27880; 37322]%N ++ runes_of_ascii "
-// packet A { u8 x, }
-)match  chars as
-trueish {
-""""	: T	, 42
-    : f32a , ""{,}"" :	calculatedFrom 255  :// c
-A ,	} ,
-    }root packet  matchKey { u16 len@lengthOf( metadata )	`// not a comment` , }  options {
-Z9_ =
-    ""it's"" packetx= """ ++ [28040; 24687]%N ++ runes_of_ascii """	; falsey
-// a // b
-// c
-= //
-char[ 0 ] ;MetaDataX = ""a\\""
-    A = true ;
+Eval vm_compute in ("<<<M1255>>>" ++ check (runes_of_ascii "packet repeatCount { } root
+    packet x {// " ++ [128512]%N ++ runes_of_ascii " emoji
+match body as pack { 10
+    :charz} , @leftPad
+    ( '\x00'
+    // c
+    ) @lengthOf( _x ) string//x
+f32a
+// @lengthOf(
+// `tick` ""quote"" 'q'
+@calculatedFrom(
+""1"" )
+/// triple
+// `tick` ""quote"" 'q'
+, @tag(4294967296 ) @leftPad
+    ( ) string
+    Logon
+,int64
+    i8i8`it's` ,
+} packet
+    Logon
+{
+len
+    // trailing space 
+    {
+repeat i32 float //
+,
+} ,
+    @lengthOf( Z9_
+) repeat lengthOf  msg_type, string_ //
+@calculatedFrom(""{,}""
+) ,
+@tag(255
+    ) char[4294967296 //	t
+]  pack
+`say ""hi""`
+, }
+")).
+Eval vm_compute in ("<<<M194>>>" ++ check (runes_of_ascii "// " ++ [128512]%N ++ runes_of_ascii " emoji
+packet// @lengthOf(
+int { match zchar
+as _x {	[ 4294967296 ]
+    :
+x_y_z ,[
+""a\""b"" // @lengthOf(
+]  :chars ,
+    [
+    ""it's"" , ""\" ++ [233]%N ++ runes_of_ascii """ , ""packet""
+    ,""{,}"" ] :
+f32a
+}, x { repeat asx{ zchar[  0123456789
+]crc `crlf
+line`, msg_type	i8i8`crlf
+line` ,
+    uint16
+rootA @calculatedFrom( ""a\\"" )
+    // @lengthOf(
+    , Logon x_y_z
+`" ++ [233]%N ++ runes_of_ascii "` , },
+} , } packet
+u{ match
+    pack as trueish //x
+{ ""1"" : len """ ++ [128512]%N ++ runes_of_ascii """ : leftPad ,4294967296 // @lengthOf(
+:	metadata
+, }
+    ,int T  `line1
+line2` ,f32 Logon
+    , } options {
     }
+")).
+Eval vm_compute in ("<<<M1369>>>" ++ check (runes_of_ascii "packet leftPad { @calculatedFrom( ""\" ++ [233]%N ++ runes_of_ascii """ ) @rightPad	( '0'
+) @lengthOf( asx)
+BodyLength trueish `it's` ,
+@leftPad('\x00' ) A // " ++ [128512]%N ++ runes_of_ascii " emoji
+i8i8`
+` ,@tag(
+    0 ) matchKey
+{  int16
+falsey `line1
+line2` ,/// triple
+} ,// " ++ [128512]%N ++ runes_of_ascii " emoji
+match tag as
+falsey	{
+    [ ""packet"" ]  : i64_
+3 : leftPad
+    ,	} , @calculatedFrom(
+    ""// no comment""
+) string a1
+,@leftPad // trailing space 
+(
+// `tick` ""quote"" 'q'
+// @lengthOf(
+'\x00' )
+@calculatedFrom( """ ++ [28040; 24687]%N ++ runes_of_ascii """ )
+@calculatedFrom(
+    ""`tick`""
+    )repeat chars
+As
+,
+}
+")).
+Eval vm_compute in ("<<<M1389>>>" ++ check (runes_of_ascii "packet u128
+    { // @lengthOf(
+@lengthOf(
+u8x)	char[]
+lengthOf`it's` ,
+@calculatedFrom(""it's"" ) u16 metadata@calculatedFrom( ""// no comment"" )
+//x
+// " ++ [128512]%N ++ runes_of_ascii " emoji
+`// not a comment`
+    , @lengthOf( int )// @lengthOf(
+repeat trueish float ,
+    // c
+    char[  00] falsey , repeat
+    zchar[ 3] falsey ,@lengthOf(	pack )
+zchar[
+    //	t
+    007]
+// c
+// " ++ [128512]%N ++ runes_of_ascii " emoji
+packetx @lengthOf( len
+    ) ,
+repeat// @lengthOf(
+char u `tab	here` ,Pad// @lengthOf(
+@lengthOf( leftPad  ) , }
+")).
+Eval vm_compute in ("<<<M4370>>>" ++ check (runes_of_ascii "  //
+      packet
+    asx
+{// c
+    match	rootA
+    as  u8x {
+	0123456789:As
+
+    ,	} ,
+	@lengthOf(
+
+    zchar
+    ) 
+i32 
+Z9_ 
+@calculatedFrom(
+
+""`tick`"" // packet A { u8 x, }
+
+), repeat string_	//x
+
+{repeat  zchar[ 00
+]	Logon	`a\` 
+,
+    u16
+
+packetx
+    `` 
+,
+	}
+	,
+    _x,
+repeat string
+msg_type , u64 chars
+    @lengthOf(
+chars)
+    ,
+
+asx
+
+falsey
+    `tab	here`  /// triple
+    ,
+	i32
+u , 
+    //
+// trailing space 
+	  }MetaData	charz {
+}
+")).
+Eval vm_compute in ("<<<M172>>>" ++ check (runes_of_ascii "// c
+options  {
+i8i8
+    = """ ++ [28040; 24687]%N ++ runes_of_ascii """
+    // trailing space 
+    ; Pad= ' ' }root packet i8i8{ i64 matchKey`" ++ [233]%N ++ runes_of_ascii "`
+,match repeatCount as x// @lengthOf(
+{
+//	t
+// a // b
+42 : float
+    ,
+007 : u , }
+// trailing space 
+//x
+,
+@calculatedFrom( ""a	b"" ) string_
+// @lengthOf(
+/// triple
+{  matchKey string_
+    ,// trailing space 
+} , repeat char[] repeatCount
+    , }
+options // a // b
+{
+msg_type =
+true ; int
+// " ++ [128512]%N ++ runes_of_ascii " emoji
+// " ++ [27880; 37322]%N ++ runes_of_ascii "
+= u16	string_
+    = false ;}")).
+Eval vm_compute in ("<<<M3434>>>" ++ check (runes_of_ascii "// top
+packet
+    // c0
+B // c1
+{
+    // c2
+u8 a // c4a
+  // c4b
+,
+    // c5
+} // c6a
+  // c6b
+root packet // c8
+P // c9
+{
+    // c10
+u8 K
+    // c12
+, // c13
+u8 // c14a
+  // c14b
+L // c15a
+  // c15b
+@lengthOf( // c16a
+  // c16b
+Body
+    // c17
+)
+    // c18
+, // c19
+match // c20a
+  // c20b
+K // c21a
+  // c21b
+as
+    // c22
+Body // c23a
+  // c23b
+{ // c24a
+  // c24b
+1 : // c26
+B , }
+    // c29
+, // c30
+} // c31a
+  // c31b
+")).
+Eval vm_compute in ("<<<M1193>>>" ++ check (runes_of_ascii "options
+// packet A { u8 x, }
+// @lengthOf(
+{ asx
+    // " ++ [128512]%N ++ runes_of_ascii " emoji
+    = // trailing space 
+true u128 //x
+= ""// no comment""	len	= ' ' ; crc =
+    ""1"" ; f32a
+= zchar[
+    //
+    255 ] ;} packet falsey
+{ @calculatedFrom(  ""{,}""
+)	@lengthOf(
+f32a) repeat int64
+i8i8
+    `two words` ,
+    //
+    float64
+Z9_
+    @lengthOf(
+    A ) `" ++ [28040; 24687; 31867; 22411]%N ++ runes_of_ascii "` ,match int as calculatedFrom { // trailing space 
+10
+:
+T//	t
+, }, } //	t")).
+Eval vm_compute in ("<<<M606>>>" ++ check (runes_of_ascii "
+options { x_y_z
+    =// @lengthOf(
+""x y"" ; }
+    // " ++ [27880; 37322]%N ++ runes_of_ascii "
+    packet
+int { @calculatedFrom( ""\" ++ [233]%N ++ runes_of_ascii """ ) match
+    MetaDataX
+as
+o {// c
+4294967296
+    : o , } ,
+    }
+    // packet A { u8 x, }
+    MetaData
+    asx {
+    As u8x `// not a comment` ,	char[]
+string_`doc` , i64_ Z9_
+    ,
+    i16 leftPad `it's`
+    // `tick` ""quote"" 'q'
+    ,
+u16	BodyLength `// not a comment`,
+lengthOf len ,
+    }")).
+Eval vm_compute in ("<<<M3283>>>" ++ check (runes_of_ascii "// top
+packet // c0
+trueish // c1
+{ // c2
+repeat // c3
+u32 // c4
+MetaDataX // c5
+`doc` // c6
+, // c7
+Header // c8
+{ // c9
+packetx // c10
+o // c11
+`u8 x,` // c12
+, // c13
+} // c14
+, // c15
+@leftPad // c16
+( // c17
+'\x00' // c18
+) // c19
+repeat // c20
+char[ // c21
+0123456789 // c22
+] // c23
+repeatCount // c24
+, // c25
+} // c26
+packet // c27
+Packet // c28
+{ // c29
+} // c30
 ")).
 Eval vm_compute in ("<<<M587>>>" ++ check (runes_of_ascii "options{}
     packet chars {@tag(255 )
@@ -1539,790 +1526,873 @@ Z9_ { ""a\\""
 // trailing space 
 , } ,
 @lengthOf( T ) calculatedFrom int,} 	 ")).
-Eval vm_compute in ("<<<M1191>>>" ++ check (runes_of_ascii "
-options
-    { body // " ++ [27880; 37322]%N ++ runes_of_ascii "
-=
-0123456789} packet	tag{ o @lengthOf( packetx ) `" ++ [28040; 24687; 31867; 22411]%N ++ runes_of_ascii "` , repeat options1
-{ float64
-o `doc`, } , } root packet float {
-    // trailing space 
-    @calculatedFrom(
-    ""a	b"") //	t
-float32 BodyLength // " ++ [128512]%N ++ runes_of_ascii " emoji
-`crlf
-line`
-    ,  repeat // " ++ [128512]%N ++ runes_of_ascii " emoji
-f32a
-Header
-`say ""hi""` ,int8 falsey// `tick` ""quote"" 'q'
-`{ , }`, }
-")).
-Eval vm_compute in ("<<<M142>>>" ++ check (runes_of_ascii "options { i8i8  =
-    int64 ; charz = ""// no comment""; repeatCount ="""" ; f32a = 0 stringy ='\x00' }
-    // packet A { u8 x, }
-    options
-    {
-Logon = 255
-}
-    packet Header // c
-{} MetaData
-lengthOf{
+Eval vm_compute in ("<<<M517>>>" ++ check (runes_of_ascii "options { }root packet matchKey { @calculatedFrom(""a\\"" ) repeat
+i32 int`" ++ [233]%N ++ runes_of_ascii "` , } MetaData
+    repeatCount
+    { zchar[ // `tick` ""quote"" 'q'
+1
+    ]stringy  ,o lengthOf `u8 x,` ,
+zchar[42
+    ]	Header , char[ 65535
+] len `say ""hi""`
+    , int16
+crc `" ++ [233]%N ++ runes_of_ascii "` ,
+    char[]u8x ,	}
+root packet	repeatCount{@lengthOf(
+    charz )
+u128
+    ,/// triple
+}")).
+Eval vm_compute in ("<<<M1220>>>" ++ check (runes_of_ascii "root packet
+charz {// packet A { u8 x, }
+float64 rootA`
+`,	@tag(00 )
+    repeat calculatedFrom //	t
+a1
+`say ""hi""`
+    , u8 Foo @lengthOf( T )
     // `tick` ""quote"" 'q'
-    }
-options {stringy  =false ; options1
-= true ; asx=3
-/// triple
-/// triple
-roots =
-'\x00' }
+    , /// triple
+}	options {options1 =  i32
+    ; Logon // @lengthOf(
+=""CRC32"" tag
+    // packet A { u8 x, }
+    = ""CRC32""}MetaData
+_x  { u16 msg_type ,
+}
+
 ")).
-Eval vm_compute in ("<<<M527>>>" ++ check (runes_of_ascii "packet
-    trueish { pack
-    @lengthOf( uint8x // " ++ [27880; 37322]%N ++ runes_of_ascii "
-) ,A @calculatedFrom(""CRC32"" ) //
-`say ""hi""`//
+Eval vm_compute in ("<<<M199>>>" ++ check (runes_of_ascii "packet
+    body {
+@rightPad(	'0'	) Packet a1 ,asx ,repeatCount
+// trailing space 
+// packet A { u8 x, }
+{// trailing space 
+repeat int64 falsey , },	@rightPad
+// c
+// a // b
+( '0'
+)	match int
+    // " ++ [27880; 37322]%N ++ runes_of_ascii "
+    as T { 4294967296
+: _x, 00 :  string_// c
 ,
-    repeat A{ /// triple
-body `" ++ [28040; 24687; 31867; 22411]%N ++ runes_of_ascii "` , a1
+    [""x y""  ] :  stringy, } ,// packet A { u8 x, }
+uint32 x_y_z
+,
+}")).
+Eval vm_compute in ("<<<M927>>>" ++ check (runes_of_ascii "  options
+    {calculatedFrom = i32 ; // @lengthOf(
+string_
+    =
+    7 uint8x  =// c
+true ;
+    } packet chars { string	stringy @lengthOf(
+    // c
+    stringy )
+, } options{ lengthOf
 // " ++ [27880; 37322]%N ++ runes_of_ascii "
-// `tick` ""quote"" 'q'
-body , o @calculatedFrom( ""a	b"" ), repeat MetaDataX ,
-}//
+// c
+= //	t
+'\x00'
+// c
+/// triple
+matchKey ='0' ; Z9_ = string ;
+calculatedFrom =
+true	;
+metadata= ""a	b"" ; }
+")).
+Eval vm_compute in ("<<<M1500>>>" ++ check (runes_of_ascii "root packet Foo // " ++ [128512]%N ++ runes_of_ascii " emoji
+{ } options {
+    // a // b
+    tag // `tick` ""quote"" 'q'
+= //	t
+""""
+    ; u8x = zchar[0  ] }
+MetaData
+    int int {zchar[ 10]
+lengthOf	`` , i64 u8x`// not a comment` ,MetaDataX pack// `tick` ""quote"" 'q'
+`crlf
+line`
+, Logon charz `crlf
+line`
+    ,
+    // a // b
+    }
+")).
+Eval vm_compute in ("<<<M1485>>>" ++ check (runes_of_ascii "root packet Foo // " ++ [128512]%N ++ runes_of_ascii " emoji
+{ } options {
+    // a // b
+    tag // `tick` ""quote"" 'q'
+= //	t
+""""
+    ; u8x = zchar[0  ] ] }
+MetaData
+    int {zchar[ 10]
+lengthOf	`` , i64 u8x`// not a comment` ,MetaDataX pack// `tick` ""quote"" 'q'
+`crlf
+line`
+, Logon charz `crlf
+line`
+    ,
+    // a // b
+    }
+")).
+Eval vm_compute in ("<<<M1412>>>" ++ check (runes_of_ascii "packet root Foo // " ++ [128512]%N ++ runes_of_ascii " emoji
+{ } options {
+    // a // b
+    tag // `tick` ""quote"" 'q'
+= //	t
+""""
+    ; u8x = zchar[0  ] }
+MetaData
+    int {zchar[ 10]
+lengthOf	`` , i64 u8x`// not a comment` ,MetaDataX pack// `tick` ""quote"" 'q'
+`crlf
+line`
+, Logon charz `crlf
+line`
+    ,
+    // a // b
+    }
+")).
+Eval vm_compute in ("<<<M1571>>>" ++ check (runes_of_ascii "root packet Foo // " ++ [128512]%N ++ runes_of_ascii " emoji
+{ } options {
+    // a // b
+    tag // `tick` ""quote"" 'q'
+= //	t
+""""
+    ; u8x = zchar[0  ] }
+MetaData
+    int {zchar[ 10]
+lengthOf	`` , i64 u8x`// not a comment` ,MetaDataX pack// `tick` ""quote"" 'q'
 ,
-    @rightPad( ) match o
-as metadata
-{ 65535
-    : _x
-, ""\" ++ [233]%N ++ runes_of_ascii """  :
-pack
-}
-    , }
-")).
-Eval vm_compute in ("<<<M3548>>>" ++ check (runes_of_ascii "options {
-    LittleEndian = true;
-}
-packet Logon {
-    u8 x,
-}
-packet Logout {
-    u16 reason,
-}
-root packet Frame {
-    i64 Kind,
-    i64 Kind2,
-    match Kind as Body {
-        1 : Logon,
-        [2, 3, 4] : Logout,
-        100 : Logon,
-    },
-    match Kind2 as Trailer {
-        0 : Logout,
-    },
-}
-")).
-Eval vm_compute in ("<<<M1585>>>" ++ check (runes_of_ascii "root packet Foo // " ++ [128512]%N ++ runes_of_ascii " emoji
-{ } options {
-    // a // b
-    tag // `tick` ""quote"" 'q'
-= //	t
-""""
-    ; u8x = zchar[0  ] }
-MetaData
-    int {zchar[ 10]
-lengthOf	`` , i64 u8x`// not a comment` ,MetaDataX pack// `tick` ""quote"" 'q'
 `crlf
-line`
-, Logon charz charz `crlf
+line` Logon charz `crlf
 line`
     ,
     // a // b
     }
 ")).
-Eval vm_compute in ("<<<M1621>>>" ++ check (runes_of_ascii "root packet Foo // " ++ [128512]%N ++ runes_of_ascii " emoji
-{ } options {
-    // a // b
-    tag // `tick` ""quote"" 'q'
-= //	t
-""""
-    ; u8x = zchar[0  ] }
-MetaData
-    int {zchar[ 10]
-lengthOf	`` , i64 u8x`// not a comment` ,MetaDataX pack// `tick` ""quote"" 'q'
-`crlf
-line`
-, Logon charz `crlf
-line`
-    ,
-    //'1' a // b
-    }
-")).
-Eval vm_compute in ("<<<M1511>>>" ++ check (runes_of_ascii "root packet Foo // " ++ [128512]%N ++ runes_of_ascii " emoji
-{ } options {
-    // a // b
-    tag // `tick` ""quote"" 'q'
-= //	t
-""""
-    ; u8x = zchar[0  ] }
-MetaData
-    int {10 zchar[ ]
-lengthOf	`` , i64 u8x`// not a comment` ,MetaDataX pack// `tick` ""quote"" 'q'
-`crlf
-line`
-, Logon charz `crlf
-line`
-    ,
-    // a // b
-    }
-")).
-Eval vm_compute in ("<<<M1516>>>" ++ check (runes_of_ascii "root packet Foo // " ++ [128512]%N ++ runes_of_ascii " emoji
-{ } options {
-    // a // b
-    tag // `tick` ""quote"" 'q'
-= //	t
-""""
-    ; u8x = zchar[0  ] }
-MetaData
-    int {zchar[ ]10
-lengthOf	`` , i64 u8x`// not a comment` ,MetaDataX pack// `tick` ""quote"" 'q'
-`crlf
-line`
-, Logon charz `crlf
-line`
-    ,
-    // a // b
-    }
-")).
-Eval vm_compute in ("<<<M1519>>>" ++ check (runes_of_ascii "root packet Foo // " ++ [128512]%N ++ runes_of_ascii " emoji
-{ } options {
-    // a // b
-    tag // `tick` ""quote"" 'q'
-= //	t
-""""
-    ; u8x = zchar[0  ] }
-MetaData
-    int {zchar[ 10
-lengthOf	`` , i64 u8x`// not a comment` ,MetaDataX pack// `tick` ""quote"" 'q'
-`crlf
-line`
-, Logon charz `crlf
-line`
-    ,
-    // a // b
-    }
-")).
-Eval vm_compute in ("<<<M1562>>>" ++ check (runes_of_ascii "root packet Foo // " ++ [128512]%N ++ runes_of_ascii " emoji
-{ } options {
-    // a // b
-    tag // `tick` ""quote"" 'q'
-= //	t
-""""
-    ; u8x = zchar[0  ] }
-MetaData
-    int {zchar[ 10]
-lengthOf	`` , i64 u8x`// not a comment` ,@tag( pack// `tick` ""quote"" 'q'
-`crlf
-line`
-, Logon charz `crlf
-line`
-    ,
-    // a // b
-    }
-")).
-Eval vm_compute in ("<<<M1075>>>" ++ check (runes_of_ascii "
-root packet u  {@rightPad('\x00')
-Logon @calculatedFrom( ""{,}"" ) `" ++ [233]%N ++ runes_of_ascii "` , @tag(3	) string repeatCount ,match packetx // " ++ [128512]%N ++ runes_of_ascii " emoji
-as u8x  {
-65535 :i8i8
-    //x
-    , 007 // trailing space 
-:roots // " ++ [27880; 37322]%N ++ runes_of_ascii "
-,""a	b"" : BodyLength //	t
-,
-} ,
-@tag( 00 ) uint32
-repeatCount @lengthOf( u128) , }")).
-Eval vm_compute in ("<<<M264>>>" ++ check (runes_of_ascii "
-packet tag { char[]i64_
-    `crlf
-line`, @tag(4294967296	)
-repeat // c
-f32a { char[]
-u8x @lengthOf( Foo)
-    `{ , }` ,
-match
-Foo // " ++ [128512]%N ++ runes_of_ascii " emoji
-as
-packetx {255 : uint8x [	""\" ++ [233]%N ++ runes_of_ascii """ ]
-: matchKey ,} ,	},
-As @calculatedFrom( ""a	b"" )
-`doc`, char[] BodyLength `two words`	, }
-")).
-Eval vm_compute in ("<<<M765>>>" ++ check (runes_of_ascii "
+Eval vm_compute in ("<<<M4197>>>" ++ check (runes_of_ascii "  root
 packet
-    msg_type // trailing space 
-{ match leftPad as float { 3 // packet A { u8 x, }
-: repeatCount// trailing space 
+	pack {  body
+,	char[
+10
+	]
+options1 ,	@tag(
+
+007) 
+//	t
+		@rightPad
+
+    (
+    )
+@calculatedFrom( ""\n"") 
+        // " ++ [128512]%N ++ runes_of_ascii " emoji
+
+char[]	tag 
+,  repeat
+
+    char[]  Header
+    ``	,
+
+asx
+
+    {repeat  u8x
+{  repeat
+    u8
+
+x_y_z  ,  }// c
+
+, }
+
+    ,
+}	MetaData	pack {  }")).
+Eval vm_compute in ("<<<M469>>>" ++ check (runes_of_ascii "packet calculatedFrom{
+Logon o , }// packet A { u8 x, }
+MetaData As
+// a // b
+// " ++ [27880; 37322]%N ++ runes_of_ascii "
+{ uint32 repeatCount`{ , }` ,zchar[
+    /// triple
+    00 ]
+    T `say ""hi""` , zchar[
+    1 ]  float`two words` , char[	42 ] stringy`// not a comment` ,
+zchar[ 007  ]chars`tab	here` , int16 stringy  ,}")).
+Eval vm_compute in ("<<<M4279>>>" ++ check (runes_of_ascii "
+
+  MetaData
+calculatedFrom
+    {
+char[] lengthOf, } // trailing space 
+	root 	 // " ++ [27880; 37322]%N ++ runes_of_ascii "
+	  packet
+
+_x
+
+{
+    @calculatedFrom(
+    """ ++ [28040; 24687]%N ++ runes_of_ascii """)
+    repeat zchar _x
 ,
-[ 0123456789 ,
-    // a // b
-    3
-    ,10	,65535 , // c
-1 ] : Header	, ""{,}"" : packetx	,
-    0 // @lengthOf(
-: _x//	t
-,  } , }
+	    // packet A { u8 x, }
+		repeat
+    zchar[	42 	 //x
+    ]
+Pad ,
+@tag(
+
+42
+	)
+
+    char[  42 ]
+
+    u8x	,  }
 ")).
-Eval vm_compute in ("<<<M537>>>" ++ check (runes_of_ascii "MetaData charz {}// " ++ [27880; 37322]%N ++ runes_of_ascii "
-root packet matchKey{o  @calculatedFrom( ""a\""b"") ,zchar[ 10
-]i8i8 @calculatedFrom( ""1"" )
-`tab	here` ,
-match crc as rootA { 255 : Z9_ , 42 : // c
-lengthOf
+Eval vm_compute in ("<<<M1113>>>" ++ check (runes_of_ascii "  packet
+i64_ {  @leftPad ( )
+char[]u8x//x
+, float
+`line1
+line2`, // " ++ [27880; 37322]%N ++ runes_of_ascii "
+@leftPad() match	roots  as charz {
+[// @lengthOf(
+""abc"" ] :	MetaDataX  ,
+    // trailing space 
+    42 :
+    u128 } , } MetaData
+    i8i8 {char[ 0 ]
+    // " ++ [128512]%N ++ runes_of_ascii " emoji
+    matchKey `it's`
 ,
-[ 0 ,007
-    ] : Logon  ""\n"" : T 0123456789 :  float  ,
-    } , }
+    }
 ")).
-Eval vm_compute in ("<<<M3478>>>" ++ check (runes_of_ascii "packet order_item // c1a
-  // c1b
-{ u8 // c3
-a
-    // c4
-, } // c6a
-  // c6b
-root // c7a
-  // c7b
+Eval vm_compute in ("<<<M648>>>" ++ check (runes_of_ascii "options { packetx	=' 'chars /// triple
+= ""a\""b"" ; BodyLength
+= false } options{	}
+// " ++ [128512]%N ++ runes_of_ascii " emoji
+// c
+root packet
+A	{
+    @rightPad (
+// a // b
+// @lengthOf(
+'0') crc{
+    i16 calculatedFrom , } , repeat
+i8 Foo
+// trailing space 
+// `tick` ""quote"" 'q'
+,
+}
+")).
+Eval vm_compute in ("<<<M1200>>>" ++ check (runes_of_ascii "
+packet lengthOf { repeat
+    zchar[
+    10]
+x , @tag( 0123456789  ) char[ 3 ] charz ,
+}root packet i64_{ i64_
+`say ""hi""` ,string Logon `tab	here` ,
+uint64
+//x
+//	t
+pack @calculatedFrom( ""\" ++ [233]%N ++ runes_of_ascii """ ) `two words`
+,
+    } options
+{uint8x =
+'0'
+; }")).
+Eval vm_compute in ("<<<M1207>>>" ++ check (runes_of_ascii "packet repeatCount{ @rightPad ( )@rightPad // " ++ [27880; 37322]%N ++ runes_of_ascii "
+(
+    // c
+    '\x00' ) matchKey // " ++ [27880; 37322]%N ++ runes_of_ascii "
+@lengthOf( zchar ) ,	match int as  int { 00:Header, }
+    ,
+//x
+/// triple
+@leftPad (
+'\x00')
+    // @lengthOf(
+    repeat o options1`u8 x,`
+    ,}
+")).
+Eval vm_compute in ("<<<M2321>>>" ++ check (runes_of_ascii "MetaData Packet { }packet	asx  { @lengthOf( asx) falsey`crlf
+line`
+,
+    }
+    packet x	{uint32// @lengthOf(
+rootA	,u32 options1 `say ""hi""` `say ""hi""` , @tag( 7
+    )// packet A { u8 x, }
+msg_type @lengthOf(
+stringy	)	, }
+
+")).
+Eval vm_compute in ("<<<M402>>>" ++ check (runes_of_ascii "packet
+    falsey{ }MetaData
+    x
+{ body len // @lengthOf(
+, lengthOf trueish `two words` , zchar[// packet A { u8 x, }
+65535	] Header`it's`,  packetx uint8x
+`
+` , int32 As , }
+    // " ++ [128512]%N ++ runes_of_ascii " emoji
+    root packet i8i8
+{
+}
+")).
+Eval vm_compute in ("<<<M2286>>>" ++ check (runes_of_ascii "MetaData Packet { }packet	asx  { @lengthOf( asx) falsey`crlf
+line`
+,
+    }
+    packet x x	{uint32// @lengthOf(
+rootA	,u32 options1 `say ""hi""` , @tag( 7
+    )// packet A { u8 x, }
+msg_type @lengthOf(
+stringy	)	, }
+
+")).
+Eval vm_compute in ("<<<M434>>>" ++ check (runes_of_ascii "MetaData
+    charz { zchar[ 00 ]
+    leftPad
+    `tab	here` , zchar[ //x
+007
+] // " ++ [27880; 37322]%N ++ runes_of_ascii "
+matchKey , crc	matchKey  ,char[
+    1
+// " ++ [27880; 37322]%N ++ runes_of_ascii "
+// a // b
+]
+// `tick` ""quote"" 'q'
+//	t
+x_y_z ,
+    string_ matchKey `say ""hi""` , }
+")).
+Eval vm_compute in ("<<<M2368>>>" ++ check (runes_of_ascii "MetaData Packet { }packet	asx  { @lengthOf( asx) falsey`crlf
+line`
+,
+    }
+    packet x	{uint32// @lengthOf(
+rootA	,u32 options1 `say ""hi""` , @tag( 7
+    )// packet A { u8 x, }
+msg_type @lengthOf(
+stringy	)	0 }
+
+")).
+Eval vm_compute in ("<<<M2263>>>" ++ check (runes_of_ascii "MetaData Packet { }packet	asx  { @lengthOf( asx) u64`crlf
+line`
+,
+    }
+    packet x	{uint32// @lengthOf(
+rootA	,u32 options1 `say ""hi""` , @tag( 7
+    )// packet A { u8 x, }
+msg_type @lengthOf(
+stringy	)	, }
+
+")).
+Eval vm_compute in ("<<<M2355>>>" ++ check (runes_of_ascii "MetaData Packet { }packet	asx  { @lengthOf( asx) falsey`crlf
+line`
+,
+    }
+    packet x	{uint32// @lengthOf(
+rootA	,u32 options1 `say ""hi""` , @tag( 7
+    )// packet A { u8 x, }
+msg_type @lengthOf(
+	)	, }
+
+")).
+Eval vm_compute in ("<<<M33>>>" ++ check (runes_of_ascii "packet BodyLength{//	t
+x
+f32a
+    `line1
+line2`
+,
+@calculatedFrom( ""a\\""
+)@lengthOf(
+repeatCount
+) i8 Header
+    `{ , }` ,float64	leftPad@calculatedFrom(	""\" ++ [233]%N ++ runes_of_ascii """)
+,@calculatedFrom(  ""1"") uint64 o, } 	 ")).
+Eval vm_compute in ("<<<M174>>>" ++ check (runes_of_ascii "packet  f32a
+    {//
+match
+//x
+//
+o
+    // trailing space 
+    as As { 10: //
+roots
+,// " ++ [27880; 37322]%N ++ runes_of_ascii "
+[
+255 // a // b
+, 42 ,
+    10 ,  00 ]:
+    matchKey ,
+} ,
+}
+    options { u128 = 65535 Packet = 3
+;
+}")).
+Eval vm_compute in ("<<<M3425>>>" ++ check (runes_of_ascii "// top
+packet
+    // c0
+Inner { // c2a
+  // c2b
+u8 a // c4a
+  // c4b
+, } root
+    // c7
 packet // c8a
   // c8b
-new_order {
-    // c10
-order_item // c11
-, // c12a
-  // c12b
-u8
-    // c13
-x
-    // c14
-, // c15
-} // c16a
-  // c16b
-")).
-Eval vm_compute in ("<<<M458>>>" ++ check (runes_of_ascii "// packet A { u8 x, }
-options { matchKey
-    =  char[] x = char[] // " ++ [27880; 37322]%N ++ runes_of_ascii "
-} packet i64_{ repeat pack
-    `say ""hi""`, i16 calculatedFrom `u8 x,`,} MetaData calculatedFrom
-{ // trailing space 
-Logon Packet , } // `tick` ""quote"" 'q'")).
-Eval vm_compute in ("<<<M1380>>>" ++ check (runes_of_ascii "
-packet // `tick` ""quote"" 'q'
-Logon {
-@lengthOf( a1
-)match
-    x_y_z as asx {	[
-/// triple
-//x
-""packet"" //
-, """ ++ [128512]%N ++ runes_of_ascii """ // packet A { u8 x, }
-,// `tick` ""quote"" 'q'
-""packet"" , 4294967296 ,""" ++ [28040; 24687]%N ++ runes_of_ascii """ ] : A ,
-3 : Packet ,
-//
-//	t
-},}")).
-Eval vm_compute in ("<<<M3886>>>" ++ check (runes_of_ascii "root packet len {
-    @rightPad('0')
-    T {
-        /// triple
-        // c
-        match charz as crc {
-            3 : BodyLength,
-            42 : stringy,
-            ""a\\"" : options1,
-        },
-    },
-}// a // b")).
-Eval vm_compute in ("<<<M2302>>>" ++ check (runes_of_ascii "MetaData Packet { }packet	asx  { @lengthOf( asx) falsey`crlf
-line`
+P // c9
+{ // c10
+Inner ref_obj , u8 x
+    // c15
 ,
-    }
-    packet x	{uint32// @lengthOf(
-,	rootA u32 options1 `say ""hi""` , @tag( 7
-    )// packet A { u8 x, }
-msg_type @lengthOf(
-stringy	)	, }
-
+    // c16
+}
+    // c17
 ")).
-Eval vm_compute in ("<<<M2307>>>" ++ check (runes_of_ascii "MetaData Packet { }packet	asx  { @lengthOf( asx) falsey`crlf
-line`
-,
-    }
-    packet x	{uint32// @lengthOf(
-rootA	u32, options1 `say ""hi""` , @tag( 7
-    )// packet A { u8 x, }
-msg_type @lengthOf(
-stringy	)	, }
+Eval vm_compute in ("<<<M3899>>>" ++ check (runes_of_ascii "// @lengthOf(
+MetaData pack {
+    char[255] options1,
+    uint64 lengthOf,
+    int32 roots,
+}
 
-")).
-Eval vm_compute in ("<<<M2360>>>" ++ check (runes_of_ascii "MetaData Packet { }packet	asx  { @lengthOf( asx) falsey`crlf
-line`
-,
-    }
-    packet x	{uint32// @lengthOf(
-rootA	,u32 options1 `say ""hi""` , @tag( 7
-    )// packet A { u8 x, }
-msg_type @lengthOf(
-stringy		, }
-
-")).
-Eval vm_compute in ("<<<M2230>>>" ++ check (runes_of_ascii "MetaData Packet { }	asx  { @lengthOf( asx) falsey`crlf
-line`
-,
-    }
-    packet x	{uint32// @lengthOf(
-rootA	,u32 options1 `say ""hi""` , @tag( 7
-    )// packet A { u8 x, }
-msg_type @lengthOf(
-stringy	)	, }
-
-")).
-Eval vm_compute in ("<<<M2245>>>" ++ check (runes_of_ascii "MetaData Packet { }packet	asx  {  asx) falsey`crlf
-line`
-,
-    }
-    packet x	{uint32// @lengthOf(
-rootA	,u32 options1 `say ""hi""` , @tag( 7
-    )// packet A { u8 x, }
-msg_type @lengthOf(
-stringy	)	, }
-
-")).
-Eval vm_compute in ("<<<M1367>>>" ++ check (runes_of_ascii "packet leftPad {
-    //
-    i8 string_@calculatedFrom( ""\" ++ [233]%N ++ runes_of_ascii """ ) `` ,
-repeat MetaDataX {match u128
-    as
-    asx  {""a\\"": T
-, ""CRC32"" :
-    stringy ,
-0 : options1 ,
-    } , }/// triple
-,// " ++ [128512]%N ++ runes_of_ascii " emoji
+root packet Packet {
+    // c
+    @calculatedFrom(""{,}"")
+    string zchar `" ++ [28040; 24687; 31867; 22411]%N ++ runes_of_ascii "`,
 }")).
-Eval vm_compute in ("<<<M674>>>" ++ check (runes_of_ascii "
-MetaData
-// packet A { u8 x, }
-//x
-Pad
-    {int32 MetaDataX, trueish
-//x
-// " ++ [128512]%N ++ runes_of_ascii " emoji
-o `crlf
-line` , string
-Foo , uint32
-    int
-    `two words` ,
-string
-Foo,  string MetaDataX `` //
-, }
+Eval vm_compute in ("<<<M960>>>" ++ check (runes_of_ascii "// packet A { u8 x, }
+packet  BodyLength  {
+    @tag( 255 ) repeat
+uint64 f32a
+    , }packet
+chars { }
+MetaData zchar { char[] tag`a\` ,
+    body Logon `tab	here`	, }
 ")).
-Eval vm_compute in ("<<<M4197>>>" ++ check (runes_of_ascii "packet A {
-    match k as n {
-        ""x\
-        y"" : B,
-        [1, ""x\
-        y""] : C,
-        [
-            1, 2, 3, 4, 5,
-            ""x\
-            y""
-        ] : D,
-    },
-}")).
-Eval vm_compute in ("<<<M1007>>>" ++ check (runes_of_ascii "MetaData options1 //	t
-{ u32 uint8x
-, int16 options1 ,
-    } options { trueish = 65535	; Header = i64 ;	x_y_z = false Logon =
-    char[]
-// `tick` ""quote"" 'q'
-// a // b
-; }")).
-Eval vm_compute in ("<<<M206>>>" ++ check (runes_of_ascii "options
-    {As
-=false	;
-}root packet calculatedFrom // a // b
-{ zchar[
-255 ] Z9_
-,  }  MetaData metadata{ int8 chars
-, char[]
-charz `two words` , char[ 0]
-rootA, }")).
-Eval vm_compute in ("<<<M4077>>>" ++ check (runes_of_ascii "packet BodyLength {
-    repeat u128 charz,
-    i64 i64_ @lengthOf(asx),
-    repeat i64_ {
-        repeat int `u8 x,`,//	t
-    },
-    repeat float32 pack `" ++ [233]%N ++ runes_of_ascii "`,
-}")).
-Eval vm_compute in ("<<<M1178>>>" ++ check (runes_of_ascii "//x
-options {Header= ' 'string_ = '\x00' ;
-    pack=""a\""b"" ;
-    trueish = 255 }
-options
+Eval vm_compute in ("<<<M374>>>" ++ check (runes_of_ascii "
+packet
 // " ++ [27880; 37322]%N ++ runes_of_ascii "
+// c
+MetaDataX
+{ repeat repeatCount i64_ , T `crlf
+line`,	}packet As
+    {
+    @tag( 10
+) @lengthOf(
+    u8x
+//
 // @lengthOf(
-{ asx// `tick` ""quote"" 'q'
-= ""`tick`"" ; }
+) zchar[ 7 ] Foo , }
 ")).
-Eval vm_compute in ("<<<M3946>>>" ++ check (runes_of_ascii "packet A {
+Eval vm_compute in ("<<<M3569>>>" ++ check (runes_of_ascii "packet A {
     match k as n {
         [
-            22, 4, 66, 8, 10,
-            ""a"", ""c c"", ""e"", ""g"", ""i""
+            1, 22, ""c c"", 4, 5,
+            ""f"", 7, 8, ""i"", 10,
+            11
         ] : B,
         2 : C,
     },
 }")).
-Eval vm_compute in ("<<<M877>>>" ++ check (runes_of_ascii "MetaData float {i64_ Z9_`tab	here` ,
-    pack// " ++ [27880; 37322]%N ++ runes_of_ascii "
-falsey, uint8x float ,// c
-zchar[ 4294967296
-] x_y_z , int16 chars`" ++ [233]%N ++ runes_of_ascii "`,
-x_y_z stringy , }")).
-Eval vm_compute in ("<<<M3641>>>" ++ check (runes_of_ascii "packet
-	A
-	{	match k
-as 
-n {[ 
-""a""
-    , ""bb""
-,
-""c c""
-    ,  ""d""
+Eval vm_compute in ("<<<M3476>>>" ++ check (runes_of_ascii "packet
+A
 
-,""e""  ,
-""f""
+{ u8
+
+    a
     ,
-    ""g"", ""h"",""i"",
 
-""j""	]
-    :B 2 :
-C
+}
+	packet
+B
+{
+u16 b
+,
     }
-	, }
+    root
+packet P{
+u8
+K  ,match K	as M
+	{
+[ 1 ,
+	2
+] : A , 3	: B , 
+7 
+:	A, 
+} , }
+")).
+Eval vm_compute in ("<<<M215>>>" ++ check (runes_of_ascii "MetaData tag { zchar[ // a // b
+007 ]BodyLength ``
+    // packet A { u8 x, }
+    , } root packet MetaDataX {
+string_
+    @lengthOf(
+Header) ,}
+")).
+Eval vm_compute in ("<<<M778>>>" ++ check (runes_of_ascii "root
+    packet leftPad
+{ @tag( 65535) tag
+Pad, char[] o
+    @lengthOf( float) , }packet
+//
+//	t
+A {char[] T @lengthOf(
+    packetx ),  }
+")).
+Eval vm_compute in ("<<<M3660>>>" ++ check (runes_of_ascii "
+options 
+{ tag
+    =
+    ""// no comment""	/// triple
 
-")).
-Eval vm_compute in ("<<<M1675>>>" ++ check (runes_of_ascii "root packet /// triple
+calculatedFrom
+= 10
+	Packet  
+  // `tick` ""quote"" 'q'
+      =  '0'
+
+;}
+// a // b")).
+Eval vm_compute in ("<<<M1700>>>" ++ check (runes_of_ascii "root packet /// triple
 rootA {	i32
 MetaDataX@calculatedFrom( ""CRC32"" ) `line1
-line2` repeat } MetaData BodyLength {
-u8
+line2` , } MetaData BodyLength {
+""a\\""
 rootA, } // c")).
-Eval vm_compute in ("<<<M1638>>>" ++ check (runes_of_ascii "root packet /// triple
-rootA { {	i32
+Eval vm_compute in ("<<<M1728>>>" ++ check (runes_of_ascii "root packet /// triple
+root%A {	i32
 MetaDataX@calculatedFrom( ""CRC32"" ) `line1
 line2` , } MetaData BodyLength {
 u8
 rootA, } // c")).
-Eval vm_compute in ("<<<M1654>>>" ++ check (runes_of_ascii "root packet /// triple
+Eval vm_compute in ("<<<M1672>>>" ++ check (runes_of_ascii "root packet /// triple
 rootA {	i32
-MetaDataX""CRC32"" @calculatedFrom( ) `line1
-line2` , } MetaData BodyLength {
+MetaDataX@calculatedFrom( ""CRC32"" ) `line1
+line2`  } MetaData BodyLength {
 u8
 rootA, } // c")).
-Eval vm_compute in ("<<<M152>>>" ++ check (runes_of_ascii "options
-    {
-matchKey
-= ' '
-tag  = '\x00' ;
-    metadata
-// `tick` ""quote"" 'q'
-// @lengthOf(
-=  string ; charz
-= 65535
-; }
-")).
-Eval vm_compute in ("<<<M865>>>" ++ check (runes_of_ascii "
-packet//x
-trueish
-{ u128 zchar`{ , }` ,repeat BodyLength crc`{ , }`, match len as As { ""CRC32"" : // " ++ [128512]%N ++ runes_of_ascii " emoji
-rootA ,
-} ,}")).
-Eval vm_compute in ("<<<M3798>>>" ++ check (runes_of_ascii "packet A {
-    u16 len @lengthOf(body) `x
-        `,
-    u32 crc @calculatedFrom(""CRC32"") `x
-        `,
-    string body,
-}")).
-Eval vm_compute in ("<<<M1498>>>" ++ check (runes_of_ascii "root packet Foo // " ++ [128512]%N ++ runes_of_ascii " emoji
-{ } options {
-    // a // b
-    tag // `tick` ""quote"" 'q'
-= //	t
-""""
-    ; u8x = zchar[0  ] }")).
-Eval vm_compute in ("<<<M1888>>>" ++ check (runes_of_ascii "packet
+Eval vm_compute in ("<<<M1831>>>" ++ check (runes_of_ascii "packet
     Pad // a // b
-{ i8i8 @calcul" ++ [8232]%N ++ runes_of_ascii "atedFrom( ""a	b"") `u8 x,` ,
-} options{ float// " ++ [128512]%N ++ runes_of_ascii " emoji
+{ i8i8 @calculatedFrom( ""a	b"") `u8 x,` ,
+} options options{ float// " ++ [128512]%N ++ runes_of_ascii " emoji
 = f64 i64_
 =//	t
 00 }
 ")).
-Eval vm_compute in ("<<<M1867>>>" ++ check (runes_of_ascii "packet
+Eval vm_compute in ("<<<M3687>>>" ++ check (runes_of_ascii "packet
+    A
+{  match
+k  as n
+	{
+
+[ 1 
+,
+    22  ,	""c c""  ,4
+    , 
+5  ,
+
+    ""f""  ,
+	7, 
+8
+
+    ]	:B, 2
+    :C} ,
+}
+")).
+Eval vm_compute in ("<<<M4502>>>" ++ check (runes_of_ascii "packet uint8x {
+    char[7] stringy @calculatedFrom(""a\""b"") `tab	here`,// c
+    @calculatedFrom(""abc"")
+    Logon roots,
+}")).
+Eval vm_compute in ("<<<M1885>>>" ++ check (runes_of_ascii "packet
     Pad // a // b
 { i8i8 @calculatedFrom( ""a	b"") `u8 x,` ,
 } options{ float// " ++ [128512]%N ++ runes_of_ascii " emoji
 = f64 i64_
 =//	t
-} 00
+$ 00 }
 ")).
-Eval vm_compute in ("<<<M3660>>>" ++ check (runes_of_ascii "options {
-    pack = 0
-}
+Eval vm_compute in ("<<<M790>>>" ++ check (runes_of_ascii "// @lengthOf(
+packet u128
+    // `tick` ""quote"" 'q'
+    { char[ 0123456789 // " ++ [27880; 37322]%N ++ runes_of_ascii "
+]A @lengthOf( Packet  ) `u8 x,`, }
+")).
+Eval vm_compute in ("<<<M1810>>>" ++ check (runes_of_ascii "packet
+    Pad // a // b
+{ i8i8 @calculatedFrom( ""a	b"" `u8 x,` ,
+} options{ float// " ++ [128512]%N ++ runes_of_ascii " emoji
+= f64 i64_
+=//	t
+00 }
+")).
+Eval vm_compute in ("<<<M691>>>" ++ check (runes_of_ascii "packet o
+{ } packet  MetaDataX{
+} root packet u8x {MetaDataX @calculatedFrom(""\n"" ) ,
+    } // packet A { u8 x, }")).
+Eval vm_compute in ("<<<M574>>>" ++ check (runes_of_ascii "options
+{ x_y_z = /// triple
+i32 ; } MetaData
+_x
+{
+    //x
+    chars Foo // `tick` ""quote"" 'q'
+,i32 Header ,}
+")).
+Eval vm_compute in ("<<<M3704>>>" ++ check (runes_of_ascii "packet	Logon{	@tag(42 )  @rightPad
+    (  ' ')
 
-MetaData int {
-    char[00] T `crlf
-        line`,
-    i8 string_,
-    int16 matchKey,
-}")).
-Eval vm_compute in ("<<<M446>>>" ++ check (runes_of_ascii "MetaData
-body { int64 pack ,	i16 len,	o x ,	uint8
-u128 , string calculatedFrom `two words`
-, u64 len
-    , } //")).
-Eval vm_compute in ("<<<M4435>>>" ++ check (runes_of_ascii "options {
-    charz = """ ++ [28040; 24687]%N ++ runes_of_ascii """
-    rootA = '0'//	t
-    trueish = ""// no comment"";
+@leftPad () repeat
+trueish
+{string	T	// c
+	,
+	}
+,
+
+    }")).
+Eval vm_compute in ("<<<M4248>>>" ++ check (runes_of_ascii "packet calculatedFrom {
+    @tag(4294967296)
+    u msg_type,
+    char[3] crc @lengthOf(len) `u8 x,`,
+}// c")).
+Eval vm_compute in ("<<<M3337>>>" ++ check (runes_of_ascii "// c
+packet calculatedFrom { @tag( 4294967296 ) u msg_type , char[ 3 ] crc @lengthOf( len ) `u8 x,` , }")).
+Eval vm_compute in ("<<<M3370>>>" ++ check (runes_of_ascii "packet calculatedFrom { @tag( 4294967296 ) u msg_type , char[ 3 ] crc @lengthOf( len )
+// c
+`u8 x,` , }")).
+Eval vm_compute in ("<<<M4286>>>" ++ check (runes_of_ascii "packet o {
+    // c
+    @tag(42)
+    repeat x {
+        char[0123456789] i64_,
+    },
 }
 
 options {
-    body = char[]
 }")).
-Eval vm_compute in ("<<<M4255>>>" ++ check (runes_of_ascii "
-root packet
-	trueish
-{ @tag(
-255)
-    // `tick` ""quote"" 'q'
-  repeat 
-f32a	leftPad	/// triple
-`doc`, }
-
-")).
-Eval vm_compute in ("<<<M1100>>>" ++ check (runes_of_ascii "MetaData //
-trueish {_x asx ,
-trueish roots,	falsey
-    asx `" ++ [233]%N ++ runes_of_ascii "`
-    //
-    , rootA	options1
-    ,} 	 ")).
-Eval vm_compute in ("<<<M3363>>>" ++ check (runes_of_ascii "packet calculatedFrom { @tag( 4294967296 ) u msg_type , char[ 3 ] crc // c
-@lengthOf( len ) `u8 x,` , }")).
-Eval vm_compute in ("<<<M3914>>>" ++ check (runes_of_ascii "options {
-    Foo = ""`tick`""
-    pack = """ ++ [233]%N ++ runes_of_ascii "t" ++ [233]%N ++ runes_of_ascii """;
-    leftPad = false;
-    int = char[];
-    a1 = i16;
+Eval vm_compute in ("<<<M2967>>>" ++ check (runes_of_ascii "packet A {
+  match k as n {
+    [1, ""bb"", 007, ""d"", 5, ""f"", 7, ""h"", 9, ""j""] : B,
+    2 : C
+  },
 }")).
-Eval vm_compute in ("<<<M2304>>>" ++ check (runes_of_ascii "MetaData Packet { }packet	asx  { @lengthOf( asx) falsey`crlf
-line`
-,
-    }
-    packet x	{uint32")).
-Eval vm_compute in ("<<<M2624>>>" ++ check (runes_of_ascii "packet A { @rightPad(' ') @lengthOf(b) @calculatedFrom(""c"") @tag(007) match k as n { 1 : B }, }")).
-Eval vm_compute in ("<<<M3245>>>" ++ check (runes_of_ascii "packet Logon { @tag( 42 ) @rightPad ( ' ' ) @leftPad ( ) repeat trueish
-// c
-{ string T , } , }")).
-Eval vm_compute in ("<<<M2032>>>" ++ check (runes_of_ascii "root
-packet crc
-    { f32a @calculatedFrom( """ ++ [233]%N ++ runes_of_ascii "t" ++ [233]%N ++ runes_of_ascii """ )
-    `say ""hi""`, lengthOf `` ,  }@leftpad")).
+Eval vm_compute in ("<<<M2956>>>" ++ check (runes_of_ascii "packet A {
+  match k as n {
+    [""a"", 22, ""c c"", 4, ""e"", 66, ""g"", 8, ""i""] : B,
+    2 : C
+  },
+}")).
+Eval vm_compute in ("<<<M3246>>>" ++ check (runes_of_ascii "packet Logon { @tag( 42 ) @rightPad ( ' ' ) @leftPad ( ) repeat trueish { // c
+string T , } , }")).
+Eval vm_compute in ("<<<M2976>>>" ++ check (runes_of_ascii "packet A {
+  match k as n {
+    [1, 22, 007, 4, 5, 66, 7, 8, 9, 10, 11] : B,
+    2 : C
+  },
+}")).
 Eval vm_compute in ("<<<M966>>>" ++ check (runes_of_ascii "
 MetaData
     Logon{
 u16 i64_,float calculatedFrom , u16 Header, zchar[  255]  x_y_z, }
 ")).
-Eval vm_compute in ("<<<M653>>>" ++ check (runes_of_ascii "packet lengthOf {} root packet
-    i64_ { char[] BodyLength @lengthOf(Header )`doc` , }")).
-Eval vm_compute in ("<<<M2041>>>" ++ check (runes_of_ascii "root
+Eval vm_compute in ("<<<M555>>>" ++ check (runes_of_ascii "
+options {
+    len
+= char[
+10 ]
+    asx =
+false
+; string_ = """"; } // `tick` ""quote"" 'q'")).
+Eval vm_compute in ("<<<M4134>>>" ++ check (runes_of_ascii "
+packet  Z9_
+{
+
+} // a // b
+	  root packet
+
+    roots
+    { 
+        /// triple
+	}")).
+Eval vm_compute in ("<<<M1978>>>" ++ check (runes_of_ascii "root
 packet crc
-    { f32a @calculatedFrom( """ ++ [233]%N ++ runes_of_ascii "t" ++ [233]%N ++ runes_of_ascii """ )
-    `say ""hi""`, lengthOf `` ,  @}")).
-Eval vm_compute in ("<<<M3901>>>" ++ check (runes_of_ascii "options {
-    LittleEndian = true;
+    { @calculatedFrom( f32a """ ++ [233]%N ++ runes_of_ascii "t" ++ [233]%N ++ runes_of_ascii """ )
+    `say ""hi""`, lengthOf `` ,  }")).
+Eval vm_compute in ("<<<M3426>>>" ++ check (runes_of_ascii "
+packet	Inner	{u8 a
+,
+}
+	root
+    packet 
+P
+
+    { 
+Inner 
+ref_obj
+,
+u8
+
+x , 
+}
+")).
+Eval vm_compute in ("<<<M4316>>>" ++ check (runes_of_ascii "
+options
+
+{ }
+
+    packet
+    string_
+	{@rightPad (	'0'  // c
+	) u16	body , }
+
+")).
+Eval vm_compute in ("<<<M3313>>>" ++ check (runes_of_ascii "packet o { @tag( 42 ) repeat x { char[
+// c
+0123456789 ] i64_ , } , } options { }")).
+Eval vm_compute in ("<<<M2908>>>" ++ check (runes_of_ascii "packet A {
+  match k as n {
+    [""a"", ""bb"", 007, ""d"", ""e""] : B,
+    2 : C
+  },
+}")).
+Eval vm_compute in ("<<<M2904>>>" ++ check (runes_of_ascii "packet A {
+  match k as n {
+    [""a"", 22, ""c c"", 4, ""e""] : B,
+    2 : C
+  },
+}")).
+Eval vm_compute in ("<<<M2911>>>" ++ check (runes_of_ascii "packet A {
+  match k as n {
+    [1, 22, 007, 4, 5, 66] : B,
+    2 : C
+  },
+}")).
+Eval vm_compute in ("<<<M687>>>" ++ check (runes_of_ascii "packet asx
+{
+metadata// a // b
+@calculatedFrom( ""// no comment"" ) ,
 }
 
-root packet P {
-    repeat char cs,
+")).
+Eval vm_compute in ("<<<M2893>>>" ++ check (runes_of_ascii "packet A {
+  match k as n {
+    [1, 22, ""c c"", 4] : B,
+    2 : C
+  },
+}")).
+Eval vm_compute in ("<<<M3405>>>" ++ check (runes_of_ascii "MetaData _x { zchar[ 4294967296 ] // c
+lengthOf `// not a comment` , }")).
+Eval vm_compute in ("<<<M1204>>>" ++ check (runes_of_ascii "packet
+    tag
+{ //
+@tag(
+    007)
+@tag( 007 ) u T `it's`, }
+// c
+")).
+Eval vm_compute in ("<<<M2274>>>" ++ check (runes_of_ascii "MetaData Packet { }packet	asx  { @lengthOf( asx) falsey`crlf
+line`")).
+Eval vm_compute in ("<<<M322>>>" ++ check (runes_of_ascii "root packet matchKey { } packet msg_type{	char[ 65535]
+falsey ,}
+")).
+Eval vm_compute in ("<<<M1287>>>" ++ check (runes_of_ascii "MetaData falsey{ // a // b
+char[]	pack ,string int `u8 x,` , }
+")).
+Eval vm_compute in ("<<<M2742>>>" ++ check (runes_of_ascii "[ ) repeatCount repeat float32 { uint8 int16 ""it's"" int64 : ;")).
+Eval vm_compute in ("<<<M3430>>>" ++ check (runes_of_ascii "root packet P {
+    hdr {
+        u8 a,
+    },
     u8 x,
-}")).
-Eval vm_compute in ("<<<M2900>>>" ++ check (runes_of_ascii "packet A {
-  match k as n {
-    [""a"", ""bb"", ""c c"", ""d"", ""e""] : B,
-    2 : C
-  },
-}")).
-Eval vm_compute in ("<<<M3304>>>" ++ check (runes_of_ascii "packet o { @tag( 42 ) // c
-repeat x { char[ 0123456789 ] i64_ , } , } options { }")).
-Eval vm_compute in ("<<<M4487>>>" ++ check (runes_of_ascii "options {
-    charz = true;
-    roots = int64
-    trueish = ""\n""
-    charz = u8
-}")).
-Eval vm_compute in ("<<<M4380>>>" ++ check (runes_of_ascii "root packet P {
-    // c3
-    repeat string ss,// c7
-    repeat u16 ns,
-}// c12")).
-Eval vm_compute in ("<<<M3962>>>" ++ check (runes_of_ascii "packet
-	A {
-
-    B 
-b	`a
-
-b`, B
-
-    `a
-
-b`
-	,
-repeat B
-	bs `a
-
-b`	, } ")).
-Eval vm_compute in ("<<<M916>>>" ++ check (runes_of_ascii "MetaData crc	{ roots _x, u128 rootA `
-`, zchar[ 0 ] Foo `line1
-line2` , }")).
-Eval vm_compute in ("<<<M3414>>>" ++ check (runes_of_ascii "MetaData _x { zchar[ 4294967296 ] lengthOf `// not a comment` , }
-// c
-")).
-Eval vm_compute in ("<<<M3408>>>" ++ check (runes_of_ascii "MetaData _x { zchar[ 4294967296 ] lengthOf
-// c
-`// not a comment` , }")).
-Eval vm_compute in ("<<<M2182>>>" ++ check (runes_of_ascii "root
-    // `tick` ""quote"" 'q'
-    packet As { trueish Packet , , }
-")).
-Eval vm_compute in ("<<<M3455>>>" ++ check (runes_of_ascii "root packet P {
-    u16 a,
-    u32 Sum @calculatedFrom(""CRC32""),
 }
 ")).
-Eval vm_compute in ("<<<M763>>>" ++ check (runes_of_ascii "root
-    packet pack { }packet //
-u8x {
-    }
-MetaData o
-{ } // c")).
-Eval vm_compute in ("<<<M2189>>>" ++ check (runes_of_ascii "root
-    // `tick` ""quote"" 'q'
-    packet As { trueish Packet ,")).
-Eval vm_compute in ("<<<M2910>>>" ++ check (runes_of_ascii "packet A { Inner { match k as n { [1,22,007,4,5] : B, }, }, }")).
-Eval vm_compute in ("<<<M2860>>>" ++ check (runes_of_ascii "packet A {
-  match k as n {
-    [""a""] : B,
-    2 : C
-  },
-}")).
 Eval vm_compute in ("<<<M1945>>>" ++ check (runes_of_ascii "
 packet	As { @calculatedFrom(//x
 " ++ [8232]%N ++ runes_of_ascii " ""{,}""	)lengthOf , } 	 ")).
-Eval vm_compute in ("<<<M1814>>>" ++ check (runes_of_ascii "packet
-    Pad // a // b
-{ i8i8 @calculatedFrom( ""a	b""")).
+Eval vm_compute in ("<<<M629>>>" ++ check (runes_of_ascii "options  { options1 =
+    65535
+    ; msg_type= u64} 	 ")).
 Eval vm_compute in ("<<<M1928>>>" ++ check (runes_of_ascii "
 packet	As { @calculatedFrom(//x
 ""{,}""	)char[] , } 	 ")).
-Eval vm_compute in ("<<<M985>>>" ++ check (runes_of_ascii "//
-options {
-    options1	= ""a\""b""}
-// @lengthOf(
-")).
-Eval vm_compute in ("<<<M2408>>>" ++ check (runes_of_ascii "MetaData A
+Eval vm_compute in ("<<<M1759>>>" ++ check (runes_of_ascii "options { }options '\x00'  } // `tick` ""quote"" 'q'")).
+Eval vm_compute in ("<<<M2419>>>" ++ check (runes_of_ascii "MetaData A
 {
 i64
-chars	, " ++ [233]%N ++ runes_of_ascii "} // `tick` ""quote"" 'q'")).
-Eval vm_compute in ("<<<M1177>>>" ++ check (runes_of_ascii "options {leftPad =
-""it's""  u8x =1  tag=
-true }
-")).
-Eval vm_compute in ("<<<M1779>>>" ++ check (runes_of_ascii "options ""{ }options {  } // `tick` ""quote"" 'q'")).
-Eval vm_compute in ("<<<M1742>>>" ++ check (runes_of_ascii "options  }options {  } // `tick` ""quote"" 'q'")).
-Eval vm_compute in ("<<<M3637>>>" ++ check (runes_of_ascii "
-packet	A{  u8
+chars	, }# // `tick` ""quote"" 'q'")).
+Eval vm_compute in ("<<<M1757>>>" ++ check (runes_of_ascii "options { }options { {  } // `tick` ""quote"" 'q'")).
+Eval vm_compute in ("<<<M1774>>>" ++ check (runes_of_ascii "options { }options {  ~} // `tick` ""quote"" 'q'")).
+Eval vm_compute in ("<<<M4133>>>" ++ check (runes_of_ascii "
 
-    x
-`x
-`
-,
-
+  MetaData
+    BodyLength  //	t
+	{
     }
 ")).
-Eval vm_compute in ("<<<M2848>>>" ++ check (runes_of_ascii "char[] : root uint64 packet i64 float32 3")).
-Eval vm_compute in ("<<<M2687>>>" ++ check ([65533; 65533]%N ++ runes_of_ascii "Z;" ++ [65533; 65533; 7; 65533; 65533]%N ++ runes_of_ascii "e" ++ [65533; 65533; 4]%N ++ runes_of_ascii ";c$" ++ [65533; 65533; 65533; 65533]%N ++ runes_of_ascii "[B" ++ [23; 8; 7]%N ++ runes_of_ascii "}" ++ [2]%N ++ runes_of_ascii "4" ++ [65533; 6; 65533; 65533]%N ++ runes_of_ascii "tm" ++ [3; 65533]%N ++ runes_of_ascii "4" ++ [65533; 22]%N ++ runes_of_ascii "Q")).
-Eval vm_compute in ("<<<M1910>>>" ++ check (runes_of_ascii "
-packet	As { //x
-""{,}""	)lengthOf , } 	 ")).
+Eval vm_compute in ("<<<M2754>>>" ++ check (runes_of_ascii "options1 : int64 match @lengthOf( 007 65535")).
+Eval vm_compute in ("<<<M2144>>>" ++ check (runes_of_ascii "Met'1'aData x
+{// " ++ [128512]%N ++ runes_of_ascii " emoji
+i16 stringy , }")).
+Eval vm_compute in ("<<<M2609>>>" ++ check (runes_of_ascii "packet A { match k as n { [[1]] : B }, }")).
+Eval vm_compute in ("<<<M561>>>" ++ check (runes_of_ascii "options{ repeatCount =007 ;} /// triple")).
 Eval vm_compute in ("<<<M2126>>>" ++ check (runes_of_ascii "MetaData x
 {// " ++ [128512]%N ++ runes_of_ascii " emoji
 i16 stringy } ,")).
-Eval vm_compute in ("<<<M2760>>>" ++ check (runes_of_ascii "3#otkgH:+^FT^?x|t5RQ/GU$o[_gS~s3=JWej")).
-Eval vm_compute in ("<<<M2114>>>" ++ check (runes_of_ascii "MetaData x
+Eval vm_compute in ("<<<M2695>>>" ++ check ([65533]%N ++ runes_of_ascii "-" ++ [20; 65533]%N ++ runes_of_ascii "?" ++ [65533; 65533]%N ++ runes_of_ascii "&" ++ [65533]%N ++ runes_of_ascii "G" ++ [65533]%N ++ runes_of_ascii "i" ++ [65533; 8; 65533; 65533]%N ++ runes_of_ascii "*b2" ++ [65533; 65533]%N ++ runes_of_ascii "(" ++ [65533; 65533]%N ++ runes_of_ascii "~" ++ [65533; 65533]%N ++ runes_of_ascii "]n" ++ [65533; 65533; 65533; 65533; 12465]%N ++ runes_of_ascii "4E" ++ [20]%N)).
+Eval vm_compute in ("<<<M2558>>>" ++ check (runes_of_ascii "packet A { repeat x @lengthOf(y), }")).
+Eval vm_compute in ("<<<M2151>>>" ++ check (runes_of_ascii "MetaData x
 {// " ++ [128512]%N ++ runes_of_ascii " emoji
- stringy , }")).
-Eval vm_compute in ("<<<M4035>>>" ++ check (runes_of_ascii "options {
-    MetaDataX = char[]
-}")).
-Eval vm_compute in ("<<<M3559>>>" ++ check (runes_of_ascii "options {
-}
-
-options {
-}// `tick")).
-Eval vm_compute in ("<<<M2135>>>" ++ check (runes_of_ascii "MetaData x
-{// " ++ [128512]%N ++ runes_of_ascii " emoji
-i16 str")).
-Eval vm_compute in ("<<<M1765>>>" ++ check (runes_of_ascii "options { }options {  } // `t")).
-Eval vm_compute in ("<<<M4398>>>" ++ check (runes_of_ascii "options {
-    Z9_ = '\x00'
-}")).
-Eval vm_compute in ("<<<M904>>>" ++ check (runes_of_ascii "options { tag = 007
-    }
+i16 " ++ [21517; 23383]%N ++ runes_of_ascii " , }")).
+Eval vm_compute in ("<<<M51>>>" ++ check (runes_of_ascii "options
+{ string_ = //	t
+007 }
 ")).
-Eval vm_compute in ("<<<M2093>>>" ++ check (runes_of_ascii "MetaData $A { u64 pack, }")).
-Eval vm_compute in ("<<<M2058>>>" ++ check (runes_of_ascii "MetaData A u64 { pack, }")).
+Eval vm_compute in ("<<<M2853>>>" ++ check (runes_of_ascii "$+K" ++ [807]%N ++ runes_of_ascii "j6N" ++ [31; 65533]%N ++ runes_of_ascii "x" ++ [65533; 65533; 65533]%N ++ runes_of_ascii "+" ++ [65533]%N ++ runes_of_ascii "d" ++ [15; 65533]%N ++ runes_of_ascii "m" ++ [65533; 23]%N ++ runes_of_ascii "+" ++ [24; 1; 65533; 65533; 65533]%N ++ runes_of_ascii "cb" ++ [65533]%N)).
+Eval vm_compute in ("<<<M3008>>>" ++ check (runes_of_ascii "packet A {
+    u8 x `a
+b`,
+}")).
+Eval vm_compute in ("<<<M849>>>" ++ check (runes_of_ascii "
+options	{ falsey = """" ; }
+")).
+Eval vm_compute in ("<<<M2072>>>" ++ check (runes_of_ascii "MetaData A { u64 pack, , }")).
+Eval vm_compute in ("<<<M2099>>>" ++ check (runes_of_ascii "MetaData A { u64 na" ++ [239]%N ++ runes_of_ascii "ve, }")).
+Eval vm_compute in ("<<<M2073>>>" ++ check (runes_of_ascii "MetaData A { u64 pack} ,")).
 Eval vm_compute in ("<<<M225>>>" ++ check (runes_of_ascii "packet
     matchKey{ }
 ")).
-Eval vm_compute in ("<<<M1980>>>" ++ check (runes_of_ascii "root
-packet crc
-    {")).
-Eval vm_compute in ("<<<M2780>>>" ++ check (runes_of_ascii "u8 ( MetaData : = f64")).
-Eval vm_compute in ("<<<M513>>>" ++ check (runes_of_ascii "packet
-uint8x { }
+Eval vm_compute in ("<<<M1299>>>" ++ check (runes_of_ascii "  packet f32a {
+    }
 ")).
-Eval vm_compute in ("<<<M997>>>" ++ check (runes_of_ascii "options {a1	=1 ;}
+Eval vm_compute in ("<<<M2857>>>" ++ check ([65533; 65533]%N ++ runes_of_ascii "0" ++ [65533; 65533; 65533; 65533]%N ++ runes_of_ascii "%?" ++ [65533; 11]%N ++ runes_of_ascii "h" ++ [65533; 65533]%N ++ runes_of_ascii "p" ++ [65533; 65533]%N ++ runes_of_ascii "|" ++ [65533; 65533; 65533]%N)).
+Eval vm_compute in ("<<<M563>>>" ++ check (runes_of_ascii "
+root
+packet o {}")).
+Eval vm_compute in ("<<<M585>>>" ++ check (runes_of_ascii "MetaData
+float {}
 ")).
-Eval vm_compute in ("<<<M3106>>>" ++ check (runes_of_ascii "packet A {
+Eval vm_compute in ("<<<M3096>>>" ++ check (runes_of_ascii "packet A {
 }
-// c" ++ [8239]%N)).
-Eval vm_compute in ("<<<M2655>>>" ++ check (runes_of_ascii "options { a = ; }")).
-Eval vm_compute in ("<<<M2070>>>" ++ check (runes_of_ascii "MetaData A { u64")).
-Eval vm_compute in ("<<<M3555>>>" ++ check (runes_of_ascii "MetaData a1 {
-}")).
-Eval vm_compute in ("<<<M2065>>>" ++ check (runes_of_ascii "MetaData A {")).
-Eval vm_compute in ("<<<M2691>>>" ++ check ([65533; 65533]%N ++ runes_of_ascii "m" ++ [65533; 65533]%N ++ runes_of_ascii "``" ++ [65533; 65533; 65533]%N)).
-Eval vm_compute in ("<<<M2427>>>" ++ check (runes_of_ascii "char[]x")).
-Eval vm_compute in ("<<<M2723>>>" ++ check (runes_of_ascii "y)5" ++ [65533; 65533; 65533]%N)).
-Eval vm_compute in ("<<<M2786>>>" ++ check ([65533; 17; 65533; 31; 65533]%N)).
-Eval vm_compute in ("<<<M2500>>>" ++ check (runes_of_ascii "//x")).
-Eval vm_compute in ("<<<M2522>>>" ++ check (runes_of_ascii "`""`")).
-Eval vm_compute in ("<<<M2528>>>" ++ check (runes_of_ascii "-1")).
-Eval vm_compute in ("<<<M2763>>>" ++ check ([65533]%N)).
+// c" ++ [8232]%N)).
+Eval vm_compute in ("<<<M2632>>>" ++ check (runes_of_ascii "packet A { } // c")).
+Eval vm_compute in ("<<<M1975>>>" ++ check (runes_of_ascii "root
+packet crc")).
+Eval vm_compute in ("<<<M3157>>>" ++ check (runes_of_ascii "
+
+  packet A {}")).
+Eval vm_compute in ("<<<M2410>>>" ++ check (runes_of_ascii "MetaData A
+{")).
+Eval vm_compute in ("<<<M2833>>>" ++ check (runes_of_ascii "x" ++ [65533; 27; 65533; 65533]%N ++ runes_of_ascii "c" ++ [65533; 65533; 65533]%N ++ runes_of_ascii "T")).
+Eval vm_compute in ("<<<M2461>>>" ++ check (runes_of_ascii "repeats")).
+Eval vm_compute in ("<<<M191>>>" ++ check (runes_of_ascii "//
+
+
+")).
+Eval vm_compute in ("<<<M3085>>>" ++ check (runes_of_ascii "// c" ++ [8192]%N)).
+Eval vm_compute in ("<<<M2524>>>" ++ check (runes_of_ascii "0x10")).
+Eval vm_compute in ("<<<M2541>>>" ++ check (runes_of_ascii "a	b")).
+Eval vm_compute in ("<<<M2681>>>" ++ check (runes_of_ascii "		")).
